@@ -9,6 +9,20 @@ which the check driver reports as a broken obligation (never silently skipped).
 Data-dependent `while` loops become fuelled Fixpoints (FunTx.stmt_while) and the modelled exceptions (IndexError of
 l[-1] / l[k], ValueError / OverflowError of math.floor) values of `outcome`; which functions may loop or raise is
 declared in EFFECTS and checked.  Gen/Sample.v (sampling loops, path evaluation, flatteners) is written this way.
+
+Third round (Gen/Nodelist.v, Gen/Sweep.v, Gen/Split.v; the tables and comments marked `round 3` below):
+  * classes as Coq records built by running their own __init__ (RECORDS), the three node-type strings as a three-constructor
+    type (NODE_TYPES), run-time ints as Z ('Z': enumerate, Python indexing / slicing by a negative int), `len(seg)` of a segment
+    of unknown class and `len(l) == k` of a list as matches that narrow the value (split_on_class, items_view), `for` loops
+    with `break` (break_fold) and `for` loops whose body raises or consumes fuel (fold_loop_x: fold_outcome / fold_option),
+    `raise ValueError(..)`, mutators that raise;
+  * local functions used as procedures and stored in tuples, and the local deques they share (prepare_closures): closures are
+    expanded at the call, references to the two functions / two deques are bools decided at translation time from what the
+    tuple names, every update through a reference reaches the deque it stands for (update_through); `sorted(key=lambda)`,
+    lambdas passed to functions that only call them, functions that update an argument in place;
+  * dicts keyed by segment value as association lists, through a fixed set of idioms ('DICT'); `x = l.pop(0)`, the
+    element-wise update loops as maps (elementwise_idioms).
+Everything outside these shapes is Untranslatable, as before.
 """
 import ast, sys, os, hashlib, json
 from fractions import Fraction
@@ -40,36 +54,84 @@ SEGPROJ = {'seg2': ['l0', 'l1'], 'seg3': ['q0', 'q1', 'q2'], 'seg4': ['c0', 'c1'
 SEGCON = {2: 'L2', 3: 'Q3', 4: 'C4'}
 SEGTY = {2: 'seg2', 3: 'seg3', 4: 'seg4'}
 CLASS_OF = {'P': 'Point', 'seg2': 'Line', 'seg3': 'QuadraticBezier', 'seg4': 'CubicBezier',
-            'M': 'AffineTransformation', 'BB': 'BoundingBox', 'PATH': 'BezierPath'}
+            'M': 'AffineTransformation', 'BB': 'BoundingBox', 'PATH': 'BezierPath',
+            'NODE': 'Node', 'SREP': 'SegmentRepresentation'}
 # 'PATH': a BezierPath as the list of its segments, `list (segment T)` (what asSegments() returns; the Nodelist representation
 # and the conversion inside asSegments are outside the model).  'SEG': one element of it, the sum type `segment T`: attribute
 # access and method calls on it dispatch on the constructor to the definitions generated for the three classes.
 SEGSUM = [('SLine', 'seg2'), ('SQuad', 'seg3'), ('SCubic', 'seg4')]
 TY_OF_CLASS = {v: k for k, v in CLASS_OF.items()}
 PFX = {'Point': 'Point', 'Line': 'Line', 'QuadraticBezier': 'Quad', 'CubicBezier': 'Cubic',
-       'AffineTransformation': 'Affine', 'BoundingBox': 'BBox', 'CurveFit': 'CurveFit', 'BezierPath': 'Path'}
+       'AffineTransformation': 'Affine', 'BoundingBox': 'BBox', 'CurveFit': 'CurveFit', 'BezierPath': 'Path',
+       'Node': 'Node', 'SegmentRepresentation': 'SegRep'}
 FILE_OF = {'Point': 'Point', 'Line': 'Line', 'QuadraticBezier': 'Quad', 'CubicBezier': 'Cubic',
            'AffineTransformation': 'Affine', 'BoundingBox': 'BBox', 'utils': 'Utils', 'curvedistance': 'CurveDist',
-           'geometricshapes': 'Shapes', 'curvefitter': 'Fit', 'CurveFit': 'Fit', 'BezierPath': 'Sample'}
-FILE_ORDER = ['Utils', 'Point', 'Affine', 'BBox', 'Line', 'Quad', 'Cubic', 'Shapes', 'Fit', 'CurveDist', 'Sample']
+           'geometricshapes': 'Shapes', 'curvefitter': 'Fit', 'CurveFit': 'Fit', 'BezierPath': 'Sample',
+           'Node': 'Nodelist', 'SegmentRepresentation': 'Nodelist', 'linesweep': 'Sweep'}
+FILE_ORDER = ['Utils', 'Point', 'Affine', 'BBox', 'Line', 'Quad', 'Cubic', 'Shapes', 'Fit', 'CurveDist', 'Sample', 'Nodelist', 'Sweep', 'Split']
 # leaves of the import graph: no other generated file imports them (so adding one leaves the text of the others unchanged)
-LEAF_FILES = {'Shapes', 'Fit', 'Sample'}
+LEAF_FILES = {'Shapes', 'Fit', 'Sample', 'Nodelist', 'Sweep', 'Split'}
+# ... except for the ones named here (the types `outcome` / `pyexc` and the list helpers live in the prelude of Gen/Sample.v)
+EXTRA_DEPS = {'Nodelist': ['Sample'], 'Sweep': ['Sample', 'Nodelist']}
 # methods emitted into another file than the one of the receiver's class (keyed by the DEFINING class)
 FILE_OF_DEFCLASS = {'SampleMixin': 'Sample'}
 # ... or keyed by the method name (the flatteners call the sampling methods, so they live with them)
-FILE_OF_METHOD = {'flatten': 'Sample'}
+FILE_OF_METHOD = {'flatten': 'Sample', 'splitAtPoints': 'Split', 'addExtremes': 'Split'}
 # modules whose module-level constants are emitted as named definitions (elsewhere they are inlined at the use)
 NAMED_GLOBAL_MODULES = {'path/geometricshapes.py'}
 MODULE_OF_CLASS = {'Point': 'point.py', 'Line': 'line.py', 'QuadraticBezier': 'quadraticbezier.py',
                    'CubicBezier': 'cubicbezier.py', 'Segment': 'segment.py',
                    'AffineTransformation': 'affinetransformation.py', 'BoundingBox': 'boundingbox.py',
                    'ArcLengthMixin': 'utils/arclengthmixin.py', 'IntersectionsMixin': 'utils/intersectionsmixin.py',
-                   'SampleMixin': 'utils/samplemixin.py', 'CurveFit': 'utils/curvefitter.py', 'BezierPath': 'path/__init__.py'}
+                   'SampleMixin': 'utils/samplemixin.py', 'CurveFit': 'utils/curvefitter.py', 'BezierPath': 'path/__init__.py',
+                   'Node': 'path/representations/Nodelist.py', 'SegmentRepresentation': 'path/representations/Segment.py'}
 MRO = {'BezierPath': ['BezierPath', 'SampleMixin'],     # BooleanOperationsMixin (pyclipper) is outside the model
+       'Node': ['Node'], 'SegmentRepresentation': ['SegmentRepresentation'],
        'Point': ['Point'], 'AffineTransformation': ['AffineTransformation'], 'BoundingBox': ['BoundingBox'], 'CurveFit': ['CurveFit'],
        'Line': ['Line', 'Segment', 'IntersectionsMixin', 'SampleMixin'],
        'QuadraticBezier': ['QuadraticBezier', 'ArcLengthMixin', 'Segment', 'IntersectionsMixin', 'SampleMixin'],
        'CubicBezier': ['CubicBezier', 'ArcLengthMixin', 'Segment', 'IntersectionsMixin', 'SampleMixin']}
+
+
+# ---- round 3: node lists (path/representations) -------------------------------------------------------------------------------
+# The three node types the library itself produces.  A Python string is a translation-time constant; it becomes a runtime
+# value only as one of these three literals (type 'NT', the three-constructor `nodetype`); any other string met where a
+# runtime value is needed, or compared with a node type, is Untranslatable.
+NODE_TYPES = {'line': 'Nt_line', 'curve': 'Nt_curve', 'offcurve': 'Nt_offcurve'}
+# classes modelled as Coq records (declared in the prelude of their file): type tag -> (class, constructor, [(attribute, type, projection)]).
+# An instance is built by running the class's own __init__ on an object whose attributes are all unset ('UOBJ'): when it ends
+# every declared attribute must have been assigned a value of the declared type, and nothing else.
+# 'PCLOSED' is a BezierPath of which only the attribute `closed` is ever read: a bool.
+# 'Z' is a Python int computed at run time (an index): a Coq Z, exact for every carrier.
+RECORDS = {'NODE': ('Node', 'GNode', [('point', 'P', 'n_point'), ('type', 'NT', 'n_type')]),
+           'SREP': ('SegmentRepresentation', 'MkSegRep', [('path', 'PCLOSED', 'sr_path'), ('segments', ('L', 'SEG'), 'sr_segments')])}
+RECORD_OF_CLASS = {v[0]: k for k, v in RECORDS.items()}
+# ---- round 3: splitAtPoints (path/__init__.py) -----------------------------------------------------------------------------------
+# ('DICT', k, v): a dict, as the association list of its items in first-insertion order (the order CPython iterates in).  A key
+# is looked up by the key equality KEYEQ[k] applied to (stored key, looked-up key); for segments it is `segment_keyeq O`: same
+# class and numerically equal coordinates.  (CPython: equal hashes and then identity or ==.  hash(Segment) is the hash of the
+# tuple of its points, which agree for numerically equal coordinates, and Segment.__eq__ holds for them; keys that agree in
+# hash but not numerically -- a 64-bit collision -- and NaN coordinates are outside the model, as in Hand/Split.v.)
+# Only these uses of a dict are translated (anything else is Untranslatable):
+#   d = {}                                        the empty association list
+#   k in d, k not in d                            dict_mem
+#   d[k] = v                                      dict_set: the first item whose key matches gets the value, else (k, v) is added at the end
+#   if k not in d: d[k] = []                      } the pair of statements: dict_append -- x goes to the list of the first matching
+#   d[k].append(x)                                }   item, or a new item (k, [x]) is added (the item Python finds by identity)
+#   for k in d: d[k] = f(d[k])                    every value replaced by f of it, in place (each item found by identity)
+#   if k in d: x = d[k]; ...                      match dict_get d k with Some x => .. | None => <else> end.  x ALIASES the stored
+#       list: the body may update x in place (x.pop(0), x[i] = e) and must not mention d; when it ends the model stores x back
+#       under the key as it was when x was read (d[k0] = x), and x must not be used afterwards
+KEYEQ = {'SEG': '(segment_keyeq O)'}
+# ---- round 3: the sweep (utils/linesweep.py) ------------------------------------------------------------------------------------
+# ('DQ', t): a collections.deque of t, a Coq list (append at the right end, popleft at the left one).
+# 'SHAPE': an element of the collections handed to bbox_intersections, `shape T := (nat * bbox T)`: an object of which the sweep
+#   uses two things only -- its identity (o != o2 between two shapes is `negb (Nat.eqb ..)` of the tags: distinct objects compare
+#   unequal, an object equals itself; value-equal distinct Segments are outside the model, as in Hand/Sweep.v) and .bounds().
+# ('FUN', argtypes, ret): a parameter that is a function, only ever called.
+# ('FN', names) / ('RF', names): a run-time value that is one of the local functions / a reference to one of the local deques
+#   ("cells") of the function being translated -- with two candidates a bool, true = the first in order of definition.
+#   The static forms are the constants ('localfun', f) and ('cellref', c).
 
 
 def tmatch(a, b):
@@ -78,12 +140,15 @@ def tmatch(a, b):
     if a == '?': return b
     if b == '?': return a
     if isinstance(a, tuple) and isinstance(b, tuple) and a[0] == b[0]:
-        if a[0] in ('L', 'O', 'F', 'X'):
+        if a[0] in ('L', 'O', 'F', 'X', 'DQ'):
             m = tmatch(a[1], b[1])
             return (a[0], m) if m is not None else None
         if a[0] == 'T' and len(a[1]) == len(b[1]):
             ms = [tmatch(x, y) for x, y in zip(a[1], b[1])]
             return ('T', tuple(ms)) if all(m is not None for m in ms) else None
+        if a[0] == 'DICT':
+            k, v = tmatch(a[1], b[1]), tmatch(a[2], b[2])
+            return ('DICT', k, v) if k is not None and v is not None else None
     return None
 
 
@@ -99,8 +164,20 @@ def coqty(t):
     if t == 'EDGE': return '(seg2 T * option (segment T))%type'
     if t == 'PATH': return 'list (segment T)'
     if t == 'IX': return '(T * pt T * T)%type'
+    if t == 'NT': return 'nodetype'
+    if t == 'NODE': return 'gnode T'
+    if t == 'SREP': return 'segrep T'
+    if t == 'PCLOSED': return 'bool'
+    if t == 'Z': return 'Z'
+    if t == 'SHAPE': return 'shape T'
+    if t == 'UNIT': return 'unit'
     if isinstance(t, tuple):
-        if t[0] == 'L': return f'list ({coqty(t[1])})'
+        if t[0] in ('L', 'DQ'): return f'list ({coqty(t[1])})'
+        if t[0] in ('FN', 'RF'):
+            if len(t[1]) != 2: raise Untranslatable(f'a reference among {len(t[1])} candidates {t[1]!r} (only two are modelled, as a bool)')
+            return 'bool'
+        if t[0] == 'DICT': return f'list (({coqty(t[1])} * {coqty(t[2])})%type)'
+        if t[0] == 'FUN': return '(' + ' -> '.join([coqty(x) for x in t[1]] + [coqty(t[2])]) + ')'
         if t[0] == 'O': return f'option ({coqty(t[1])})'
         if t[0] == 'F': return f'option ({coqty(t[1])})'       # fuelled: None = the fuel ran out
         if t[0] == 'X': return f'outcome ({coqty(t[1])})'      # may raise: Returns v | Raises e
@@ -167,7 +244,8 @@ def fingerprint(node):
 MUTATORS = {('AffineTransformation', n) for n in
             ('apply', 'apply_backwards', 'translate', 'scale', 'reflect', 'rotate', 'invert')} | \
            {('Point', 'rotate'), ('Point', 'transform')} | {('BoundingBox', 'extend')} | \
-           {(c, 'round') for c in ('Line', 'QuadraticBezier', 'CubicBezier')}
+           {(c, 'round') for c in ('Line', 'QuadraticBezier', 'CubicBezier')} | {('SegmentRepresentation', 'appendSegment')} | \
+           {('BezierPath', 'splitAtPoints')}
 # mutators whose receiver may be a BoundingBox with unset corners.  `BoundingBox()` sets bl = tr = None; the receiver is an
 # `option (bbox T)`, None standing for "both corners None".  A state with exactly one corner set has no representation: a body
 # that ends in (or joins on) such a state is Untranslatable.
@@ -176,7 +254,7 @@ OPT_SELF = {('BoundingBox', 'extend')}
 ARG_CLASSES = {('BoundingBox', 'extend'): ('P', 'BB')}
 UNSET_BOX = {'bl': None, 'tr': None}
 # methods that return None and update one of their ARGUMENTS in place: translated as functions returning the new value of it
-MUTATED_PARAM = {('CurveFit', 'estimateBi'): 'bez'}
+MUTATED_PARAM = {('CurveFit', 'estimateBi'): 'bez', ('mod:utils/linesweep.py', 'dequefilter'): 'deck'}
 
 # signature table: argument types of methods (self excluded).  Return types are inferred.
 SIG = {
@@ -206,6 +284,11 @@ SIG = {
     ('BezierPath', 'pointAtTime'): ['S'], ('BezierPath', 'lengthAtTime'): ['S'],
     ('*seg', 'flatten'): ['S'],
     ('BezierPath', 'sample'): ['S'], ('BezierPath', 'regularSampleTValue'): ['S'], ('BezierPath', 'regularSample'): ['S'],
+    # path/representations/Segment.py: `seg` is the list of coordinate pairs fromNodelist accumulates
+    ('SegmentRepresentation', 'appendSegment'): [('L', ('T', ('S', 'S')))],
+    ('SegmentRepresentation', 'fromNodelist'): ['PCLOSED', ('L', 'NODE')],
+    # path/__init__.py: the split list pairs a segment (a dict key, looked up by value) with a time
+    ('BezierPath', 'splitAtPoints'): [('L', ('T', ('SEG', 'S')))],
 }
 # effect table: what a function can do besides returning a value.  'fuel': it contains a data-dependent `while` loop (or calls
 # such a function): the definition takes `fuel : nat` first -- the number of iterations every loop invocation may use -- and
@@ -218,6 +301,13 @@ EFFECTS = {
     ('Line', 'flatten'): set(), ('QuadraticBezier', 'flatten'): {'fuel'}, ('CubicBezier', 'flatten'): {'fuel', 'exc'},
     # SampleMixin on a path: pointAtTime / lengthAtTime raise, inside the loops too
     ('BezierPath', 'sample'): {'fuel', 'exc'}, ('BezierPath', 'regularSampleTValue'): {'fuel', 'exc'}, ('BezierPath', 'regularSample'): {'fuel', 'exc'},
+    # IndexError of self.segments[0] / nodelist[firstOncurve] on an empty list, ValueError("Unknown segment type")
+    ('SegmentRepresentation', 'toNodelist'): {'exc'}, ('SegmentRepresentation', 'appendSegment'): {'exc'},
+    ('SegmentRepresentation', 'fromNodelist'): {'exc'},
+    # IndexError of deque.popleft() on an empty deque (Proofs/Bridge3.v: it never happens)
+    ('mod:utils/linesweep.py', 'dequefilter'): {'exc'}, ('mod:utils/linesweep.py', 'bbox_intersections'): {'exc'},
+    # the `while len(tList) > 0` loop (ZeroDivisionError of mapx is not modelled: `/` is the total dvd, as everywhere in Gen)
+    ('BezierPath', 'splitAtPoints'): {'fuel'}, ('BezierPath', 'addExtremes'): {'fuel'},
 }
 # 'EDGE': a Line together with its `_orig` attribute, `(seg2 T * option (segment T))`: Some c when `line._orig = c` has been
 # executed on it, None for a Line that was never tagged (reading the attribute would be an AttributeError; nothing reads it).
@@ -247,7 +337,8 @@ def is_mtype(t):
     return None
 CLASSMETHODS = {('Point', 'fromAngle'), ('AffineTransformation', 'translation'), ('AffineTransformation', 'scaling'),
                 ('AffineTransformation', 'reflection'), ('AffineTransformation', 'rotation'),
-                ('CurveFit', 'computeHook'), ('CurveFit', 'estimateBi'), ('CurveFit', 'chordLengthParameterize')}
+                ('CurveFit', 'computeHook'), ('CurveFit', 'estimateBi'), ('CurveFit', 'chordLengthParameterize'),
+                ('SegmentRepresentation', 'fromNodelist')}
 
 
 def sig_of(cls, name, nargs):
@@ -263,6 +354,144 @@ def sig_of(cls, name, nargs):
     raise Untranslatable(f'no signature for {cls}.{name}')
 
 
+def prepare_closures(fd, path):
+    """Local functions used as procedures (utils/linesweep.py).  Returns (fd', cells, local function names).
+
+    When the body of fd defines local functions and CALLS them at statement level -- by name, or through a local variable that
+    holds one of them -- the calls are expanded in the ast before translation:
+      *  f(a1, .., an)          ->  f__p1 = a1; ..; f__pn = an; <body of f, its parameters and local variables renamed f__x>
+      *  g(a1, .., an), g a local variable  ->  if g is f1: f1(a1, .., an) else: f2(a1, .., an)      (then expanded as above)
+    so the body runs in the caller's scope at the time of the call: reads of the free variables of f see their current values
+    and in-place updates of them persist, which is what a Python closure does (it captures variables, not values).  A closure
+    cannot REBIND a variable of the enclosing function without `nonlocal` (rejected), so only in-place updates matter.
+    "Cells" are the local variables bound once, at the top level of fd, to a fresh `deque([])`: the mutable objects that the
+    closures and the instruction tuples refer to.  Every other way a cell name is used than the ones the translator gives
+    reference semantics to (see cell_uses_ok) is rejected.  Anything not of this shape leaves fd untouched."""
+    import copy
+    funs = {st.name: st for st in fd.body if isinstance(st, ast.FunctionDef)}
+    if not funs: return fd, [], []
+    def own_nodes(x):
+        # the nodes of x that belong to its own scope (not to a nested def / lambda)
+        yield x
+        for c in ast.iter_child_nodes(x):
+            if isinstance(c, (ast.FunctionDef, ast.Lambda, ast.ClassDef)): continue
+            yield from own_nodes(c)
+    def bound_names(stmts):
+        out = set()
+        for st in stmts:
+            for x in own_nodes(st):
+                if isinstance(x, ast.Name) and isinstance(x.ctx, ast.Store): out.add(x.id)
+        return out
+    top = [st for st in fd.body if not isinstance(st, ast.FunctionDef)]
+    locals_ = bound_names(top)
+    def is_stmt_call(x): return isinstance(x, ast.Expr) and isinstance(x.value, ast.Call) and isinstance(x.value.func, ast.Name)
+    used = any(is_stmt_call(x) and (x.value.func.id in funs or x.value.func.id in locals_) for st in top for x in own_nodes(st))
+    if not used: return fd, [], []
+    for x in ast.walk(fd):
+        if isinstance(x, (ast.Nonlocal, ast.Global)): raise Untranslatable(f'{path}:{x.lineno} ({fd.name}): nonlocal / global')
+        if isinstance(x, ast.FunctionDef) and x is not fd and x.name not in funs: raise Untranslatable(f'{path}:{x.lineno} ({fd.name}): nested local function')
+    params = {a.arg for a in fd.args.args}
+    cells = []
+    for st in fd.body:
+        if isinstance(st, ast.Assign) and len(st.targets) == 1 and isinstance(st.targets[0], ast.Name) and isinstance(st.value, ast.Call) \
+                and isinstance(st.value.func, ast.Name) and st.value.func.id == 'deque' and len(st.value.args) == 1 and not st.value.keywords \
+                and isinstance(st.value.args[0], ast.List) and not st.value.args[0].elts:
+            cells.append(st.targets[0].id)
+    for c in cells:
+        stores = [x for x in ast.walk(fd) if isinstance(x, ast.Name) and x.id == c and isinstance(x.ctx, (ast.Store, ast.Del))]
+        if len(stores) != 1 or c in params or any(c in {a.arg for a in f.args.args} | bound_names(f.body) for f in funs.values()):
+            raise Untranslatable(f'{path}:{fd.lineno} ({fd.name}): the deque {c} is rebound or shadowed')
+    allnames = {x.id for x in ast.walk(fd) if isinstance(x, ast.Name)} | params
+    closure_params = set()
+
+    def inline(f, call, depth):
+        if depth > 4: raise Untranslatable(f'{path}:{call.lineno} ({fd.name}): local functions calling each other too deeply')
+        a = f.args
+        if a.vararg or a.kwarg or a.kwonlyargs or a.defaults or getattr(a, 'posonlyargs', None) or call.keywords or len(call.args) != len(a.args) \
+                or any(isinstance(x, ast.Starred) for x in call.args):
+            raise Untranslatable(f'{path}:{call.lineno} ({fd.name}): call of the local function {f.name}: only plain positional arguments')
+        for x in ast.walk(f):
+            if isinstance(x, (ast.Return, ast.Yield, ast.YieldFrom, ast.Await)): raise Untranslatable(f'{path}:{x.lineno} ({f.name}): a local function used as a procedure must not return / yield')
+        loc = {p.arg for p in a.args} | bound_names(f.body)
+        ren = {nm: f'{f.name}__{nm}' for nm in loc}
+        closure_params.update(ren[p.arg] for p in a.args)
+        for new in ren.values():
+            if new in allnames: raise Untranslatable(f'{path}:{f.lineno} ({f.name}): the name {new} is taken')
+        class Rn(ast.NodeTransformer):
+            def visit_Name(self, node):
+                return ast.copy_location(ast.Name(id=ren[node.id], ctx=node.ctx), node) if node.id in ren else node
+            def visit_Lambda(self, node):
+                if {p.arg for p in node.args.args} & (set(ren) | set(ren.values())): raise Untranslatable(f'{path}:{node.lineno} ({f.name}): a lambda parameter shadows a local variable')
+                return self.generic_visit(node)
+        body = [Rn().visit(copy.deepcopy(b)) for b in f.body]
+        pre = [ast.copy_location(ast.Assign(targets=[ast.Name(id=ren[p.arg], ctx=ast.Store())], value=arg, lineno=call.lineno), call) for p, arg in zip(a.args, call.args)]
+        out = []
+        for st in pre + body:
+            ast.fix_missing_locations(st)
+            out.extend(expand_stmt(st, depth + 1))
+        return out
+
+    def expand_stmt(st, depth):
+        if isinstance(st, ast.FunctionDef): return [st]
+        if is_stmt_call(st):
+            g = st.value.func.id
+            if g in funs: return inline(funs[g], st.value, depth)
+            if g in locals_:
+                # a local variable holding one of the local functions: dispatch on which one it is
+                names = list(funs)
+                def call_of(nm):
+                    c = copy.deepcopy(st); c.value.func = ast.Name(id=nm, ctx=ast.Load()); return ast.fix_missing_locations(c)
+                node = None
+                for nm in reversed(names):
+                    if node is None: node = [call_of(nm)]
+                    else:
+                        test = ast.Compare(left=ast.Name(id=g, ctx=ast.Load()), ops=[ast.Is()], comparators=[ast.Name(id=nm, ctx=ast.Load())])
+                        node = [ast.copy_location(ast.If(test=test, body=[call_of(nm)], orelse=node), st)]
+                ast.fix_missing_locations(node[0])
+                return expand_stmt(node[0], depth)
+            return [st]
+        for fld in ('body', 'orelse', 'finalbody'):
+            if isinstance(getattr(st, fld, None), list) and not isinstance(st, ast.FunctionDef):
+                new = []
+                for b in getattr(st, fld): new.extend(expand_stmt(b, depth))
+                setattr(st, fld, new)
+        return [st]
+
+    fd2 = copy.deepcopy(fd)
+    funs = {st.name: st for st in fd2.body if isinstance(st, ast.FunctionDef)}
+    body = []
+    for st in fd2.body: body.extend(expand_stmt(st, 0))
+    fd2.body = body
+    ast.fix_missing_locations(fd2)
+    cell_uses_ok(fd2, path, cells, funs)
+    fd2._closure_params = closure_params
+    return fd2, cells, list(funs)
+
+
+def cell_uses_ok(fd, path, cells, funs):
+    """every read of a cell (a local deque that tuples and closures refer to) must be in one of the positions the translator
+    handles: an element of a tuple, an operand of is / is not, the right-hand side of `x = cell` (the three where the REFERENCE
+    is what matters), the receiver of .append, the iterable of a for, the argument of len(), the first argument of a
+    statement-level call of a function that updates it in place (where the current VALUE is used and updated)"""
+    parent = {}
+    def walk(x, skip):
+        for c in ast.iter_child_nodes(x):
+            if skip and isinstance(c, ast.FunctionDef): continue        # the bodies of the local functions run only where they were expanded
+            parent[c] = x
+            walk(c, skip)
+    walk(fd, True)
+    for x, p in parent.items():
+        if not (isinstance(x, ast.Name) and x.id in cells and isinstance(x.ctx, ast.Load)): continue
+        ok = (isinstance(p, ast.Tuple) and isinstance(p.ctx, ast.Load)) \
+            or (isinstance(p, ast.Compare) and all(isinstance(o, (ast.Is, ast.IsNot)) for o in p.ops)) \
+            or (isinstance(p, ast.Assign) and p.value is x and len(p.targets) == 1 and isinstance(p.targets[0], ast.Name)) \
+            or (isinstance(p, ast.Attribute) and p.attr == 'append' and isinstance(parent.get(p), ast.Call) and parent[p].func is p and isinstance(parent.get(parent[p]), ast.Expr)) \
+            or (isinstance(p, ast.For) and p.iter is x) \
+            or (isinstance(p, ast.Call) and isinstance(p.func, ast.Name) and p.func.id == 'len' and p.args == [x] and not p.keywords) \
+            or (isinstance(p, ast.Call) and isinstance(p.func, ast.Name) and ('mod:' + path, p.func.id) in MUTATED_PARAM and p.args and p.args[0] is x and isinstance(parent.get(p), ast.Expr))
+        if not ok: raise Untranslatable(f'{path}:{x.lineno} ({fd.name}): the deque {x.id} is used in a way that has no reference semantics in the model')
+
+
 class Translator:
     def __init__(self):
         self.done = {}        # key -> (coqname, rettype, file)
@@ -271,6 +500,8 @@ class Translator:
         self.fingerprints = {}
         self.counter = 0
         self.loops = {}       # name of an emitted loop Fixpoint -> its text
+        self.fn_cands = ()    # the local functions / local deques of the function being translated, when they are used as run-time
+        self.cell_cands = ()  # values (prepare_closures): the candidates a ('FN', ..) / ('RF', ..) value ranges over
 
     # ------------------------------------------------------------------ helpers
     def fresh(self, base):
@@ -282,6 +513,7 @@ class Translator:
         if v.ty == 'S': return v.tx
         if v.ty == 'I': return f'(ofZ O ({v.const}))'
         if v.ty == 'LEN': return f'(ofZ O (Z.of_nat (length {v.tx})))'      # len(l) of a dynamic list meeting a float
+        if v.ty == 'Z': return f'(ofZ O {v.tx})'                            # a run-time int meeting a float
         raise Untranslatable(f'expected scalar, got {v.ty!r}')
 
     def text(self, v):
@@ -290,6 +522,10 @@ class Translator:
         if v.ty == 'K':
             if v.const is True: return 'true'
             if v.const is False: return 'false'
+            if isinstance(v.const, str) and v.const in NODE_TYPES: return NODE_TYPES[v.const]
+            if isinstance(v.const, tuple) and v.const[0] in ('localfun', 'cellref'):
+                cands = self.fn_cands if v.const[0] == 'localfun' else self.cell_cands
+                if len(cands) == 2 and v.const[1] in cands: return 'true' if cands[0] == v.const[1] else 'false'
             raise Untranslatable(f'constant {v.const!r} has no Coq text')
         if v.ty == 'FL':
             return '[' + '; '.join(self.text(i) for i in v.items) + ']'
@@ -302,6 +538,9 @@ class Translator:
         """runtime (Coq) type of a value"""
         if v.ty == 'I': return 'S'
         if v.ty == 'K' and isinstance(v.const, bool): return 'B'
+        if v.ty == 'K' and isinstance(v.const, str) and v.const in NODE_TYPES: return 'NT'
+        if v.ty == 'K' and isinstance(v.const, tuple) and v.const[0] == 'localfun' and v.const[1] in self.fn_cands: return ('FN', self.fn_cands)
+        if v.ty == 'K' and isinstance(v.const, tuple) and v.const[0] == 'cellref' and v.const[1] in self.cell_cands: return ('RF', self.cell_cands)
         if v.ty == 'FL':
             ts = {self.rtype(i) for i in v.items}
             if len(ts) == 1: return ('L', ts.pop())
@@ -400,6 +639,15 @@ class Translator:
         if key in self.done: return self.done[key]
         if key in self.inprogress: raise Untranslatable(f'recursion through {key}')
         self.inprogress.add(key)
+        saved_cands = (self.fn_cands, self.cell_cands)
+        try:
+            return self.function_(cls, name, consts, key)
+        finally:
+            # (also when the translation fails: a caller may catch the failure and translate the call site another way)
+            self.fn_cands, self.cell_cands = saved_cands
+            self.inprogress.discard(key)
+
+    def function_(self, cls, name, consts, key):
         if cls.startswith('mod:'):
             path = cls[4:]
             fd = find_modfun(path, name); defcls = None
@@ -448,16 +696,25 @@ class Translator:
                 env[pn] = Val(ty, 'v_' + pn)
                 coqparams.append(f'(v_{pn} : {coqty(ty)})')
         cname += suffix
+        fd, cells, lfuns = prepare_closures(fd, path)
+        self.fn_cands, self.cell_cands = tuple(lfuns), tuple(cells)
         fx = FunTx(self, path, cls if selfty else None, fd)
         fx.effects, fx.cname, fx.file = eff, cname, file
+        fx.cells = tuple(cells)
+        fx.closure_params = getattr(fd, '_closure_params', set())
         mut = (cls, name) in MUTATORS
-        if eff and (mut or (cls, name) in MUTATED_PARAM or (cls, name) in OPT_SELF): raise Untranslatable(f'{cls}.{name}: a mutator with effects')
+        if eff and (((cls, name) in MUTATED_PARAM and eff != {'exc'}) or (cls, name) in OPT_SELF): raise Untranslatable(f'{cls}.{name}: a mutator with effects')
         if (cls, name) in MUTATED_PARAM:
             mp = MUTATED_PARAM[(cls, name)]
             if mp not in env: raise Untranslatable(f'{cls}.{name}: no parameter {mp}')
-            cont = lambda e: e[mp]
-            ret = lambda v, e: e[mp] if (v.ty == 'K' and v.const is None) else fx.fail('mutator returns a value')
+            wrapm = (lambda v: fx.mreturn(v)) if eff else (lambda v: v)       # with 'exc': Returns <the new value of the parameter>
+            cont = lambda e: wrapm(e[mp])
+            ret = lambda v, e: wrapm(e[mp]) if (v.ty == 'K' and v.const is None) else fx.fail('mutator returns a value')
             fx.live_stack.append({mp})
+        elif mut and eff:
+            # a mutator that may raise: `Returns <the new self>` where it ends, `Raises e` where it raises
+            cont = lambda e: fx.mreturn(e[params[0]])
+            ret = lambda v, e: fx.mreturn(e[params[0]]) if (v.ty == 'K' and v.const is None) else fx.fail('mutator returns a value')
         elif mut:
             cont = lambda e: e[params[0]]
             ret = lambda v, e: e[params[0]] if (v.ty == 'K' and v.const is None) else fx.fail('mutator returns a value')
@@ -498,12 +755,12 @@ class Translator:
                 if e_ not in fx.occurred: raise Untranslatable(f'{cls}.{name}: declared effect {e_!r} never occurs')
         src = f'(* {path}: {defcls + "." if defcls else ""}{name}, line {fd.lineno} *)\n'
         self.out[file].append(src + f'Definition {cname} {{T : Type}} (O : Ops T) {" ".join(coqparams)} : {coqty(rty)} :=\n  {text}.\n')
-        self.inprogress.discard(key)
         self.done[key] = (cname, rty, file)
         return self.done[key]
 
 
 RET = {('Line', 'findExtremes'): ('L', 'S')}
+PYEXC = {'ValueError': 'PyValueError', 'IndexError': 'PyIndexError'}
 INT_FUNS = {('utils/curvedistance.py', 'C')}
 INLINE_FUNS = {('utils/curvedistance.py', 'A_r'), ('utils/curvedistance.py', 'C_rk'), ('utils/curvedistance.py', 'basis_function')}
 ALIASES = {('utils/curvedistance.py', 'B_k'): 'A_r'}
@@ -560,6 +817,9 @@ MODSIG = {
     ('path/geometricshapes.py', 'Circle'): ['S', ('O', 'P'), 'S'],
     ('utils/curvefitter.py', 'B0'): ['S'], ('utils/curvefitter.py', 'B1'): ['S'],
     ('utils/curvefitter.py', 'B2'): ['S'], ('utils/curvefitter.py', 'B3'): ['S'],
+    # utils/linesweep.py: the deques hold (shape, bounds) pairs; `condition` is only called
+    ('utils/linesweep.py', 'dequefilter'): [('DQ', ('T', ('SHAPE', 'BB'))), ('FUN', (('T', ('SHAPE', 'BB')),), 'B')],
+    ('utils/linesweep.py', 'bbox_intersections'): [('L', 'SHAPE'), ('L', 'SHAPE')],
 }
 
 
@@ -588,6 +848,8 @@ class FunTx:
         self.loop_ids = {}
         self.loop_flags = []         # per enclosing while: {'exc': does its body raise}
         self.trial = 0               # > 0: translating a loop body only to infer the types of its carried variables
+        self.cells = ()              # local deques with reference semantics (prepare_closures)
+        self.closure_params = set()  # the (renamed) parameters of the local functions expanded in place
 
     def fresh(self, base):
         self.counter += 1
@@ -644,6 +906,8 @@ class FunTx:
                 return Val('K', const=('class', n.id))
             if n.id == 'BezierPath' and imports_name(self.path, 'BezierPath', 'beziers.path'):
                 return Val('K', const=('class', 'BezierPath'))
+            if n.id in RECORD_OF_CLASS and self.names_class(n.id):
+                return Val('K', const=('class', n.id))
             self.fail(f'unbound name {n.id}', n)
         if isinstance(n, ast.UnaryOp):
             a = self.expr(n.operand, env)
@@ -658,13 +922,21 @@ class FunTx:
             return self.binop(type(n.op).__name__, self.expr(n.left, env), self.expr(n.right, env), n)
         if isinstance(n, ast.Compare):
             parts = []
-            left = self.expr(n.left, env)
+            byref = all(isinstance(o, (ast.Is, ast.IsNot)) for o in n.ops)
+            left = self.ref_or_value(n.left, env) if byref else self.expr(n.left, env)
             for op, rn in zip(n.ops, n.comparators):
-                right = self.expr(rn, env)
+                right = self.ref_or_value(rn, env) if byref else self.expr(rn, env)
                 parts.append(self.compare(type(op).__name__, left, right, n))
                 left = right
             return self.conj(parts, 'andb')
         if isinstance(n, ast.BoolOp):
+            lk = self.len_eq_test(n.values[0], env) if isinstance(n.op, ast.And) and len(n.values) > 1 else None
+            if lk is not None:
+                # `len(X) == k and rest`: rest is evaluated only when X has exactly k items, and sees them (X[-1] cannot fail there)
+                X, k = lk
+                e2, pat = self.items_view(X, k, env)
+                r = self.conj(self.purely(lambda: [self.truth(self.expr(v, e2), n) for v in n.values[1:]]), 'andb')
+                return Val('B', f'(match {env[X].tx} with {pat} => {self.tr.text(r)} | _ => false end)')
             vs = [self.truth(self.expr(n.values[0], env), n)] + self.purely(lambda: [self.truth(self.expr(v, env), n) for v in n.values[1:]])
             return self.conj(vs, 'andb' if isinstance(n.op, ast.And) else 'orb')
         if isinstance(n, ast.IfExp):
@@ -679,12 +951,46 @@ class FunTx:
         if isinstance(n, ast.Call):
             return self.call(n, env)
         if isinstance(n, ast.Tuple):
-            return Val('TUP', items=[self.expr(e, env) for e in n.elts])
+            return Val('TUP', items=[self.ref_or_value(e, env) for e in n.elts])
+        if isinstance(n, ast.Dict):
+            if n.keys: self.fail('dict literal with items', n)
+            return Val(('DICT', '?', '?'), '[]')
+        if isinstance(n, ast.Lambda):
+            a = n.args
+            if a.vararg or a.kwarg or a.kwonlyargs or a.defaults or getattr(a, 'posonlyargs', None): self.fail('lambda signature', n)
+            return Val('K', const=('lambda', n, env))
         if isinstance(n, ast.List):
             return Val('FL', items=[self.expr(e, env) for e in n.elts])
         if isinstance(n, ast.ListComp):
             return self.listcomp(n, env)
         self.fail(f'expression {type(n).__name__}', n)
+
+    def ref_or_value(self, e, env):
+        """an element of a tuple / an operand of `is`: the name of a cell (a local deque with reference semantics) denotes the
+        deque itself, not its current contents"""
+        if isinstance(e, ast.Name) and e.id in self.cells and e.id in env: return Val('K', const=('cellref', e.id))
+        return self.expr(e, env)
+
+    def lambda_text(self, v, argtys, n):
+        """a lambda (evaluated where it is passed, only ever called by the callee) as a Coq function of the given argument types"""
+        _, node, lenv = v.const
+        ps = [a.arg for a in node.args.args]
+        if len(ps) != len(argtys): self.fail('lambda arity', n)
+        e2 = dict(lenv)
+        for p_, t in zip(ps, argtys): e2[p_] = Val(t, 'v_' + p_)
+        body = self.purely(lambda: self.in_ctx('pure', lambda: self.expr(node.body, e2)))
+        return body, '(fun ' + ' '.join(f'(v_{p_} : {coqty(t)})' for p_, t in zip(ps, argtys)) + f' => {self.tr.text(body) if body.ty != "I" else self.tr.S(body)})'
+
+    def names_class(self, name):
+        """is `name`, at the top level of the module being translated, the class of MODULE_OF_CLASS (defined there, or imported from its module)?"""
+        src, tree = module(self.path)
+        for n in tree.body:
+            if isinstance(n, ast.ClassDef) and n.name == name: return MODULE_OF_CLASS[name] == self.path
+            if isinstance(n, ast.ImportFrom) and n.module and n.level == 0:
+                for a in n.names:
+                    if a.name == name and a.asname is None:
+                        return 'beziers/' + MODULE_OF_CLASS[name] == n.module.replace('.', '/') + '.py'
+        return False
 
     def conj(self, parts, f):
         # translation-time folding of constants, left to right (Python short-circuit has no effects here)
@@ -734,7 +1040,7 @@ class FunTx:
 
     def binop(self, op, a, b, n):
         tr = self.tr
-        num = lambda v: v.ty in ('S', 'I', 'LEN')
+        num = lambda v: v.ty in ('S', 'I', 'LEN', 'Z')
         if a.ty == 'I' and b.ty == 'I':
             x, y = a.const, b.const
             if op == 'Add': return Val('I', const=x + y)
@@ -745,6 +1051,8 @@ class FunTx:
             if op == 'Div': return Val('S', f'(dvd O (ofZ O ({x})) (ofZ O ({y})))')
             if op == 'Pow' and y >= 0: return Val('I', const=x ** y)
             self.fail(f'int op {op}', n)
+        if 'Z' in (a.ty, b.ty) and a.ty in ('Z', 'I') and b.ty in ('Z', 'I') and op in ('Add', 'Sub', 'Mult'):
+            return Val('Z', f'({self.Zt(a)} {dict(Add="+", Sub="-", Mult="*")[op]} {self.Zt(b)})%Z')
         if num(a) and num(b):
             f = {'Add': 'add', 'Sub': 'sub', 'Mult': 'mul', 'Div': 'dvd'}.get(op)
             if f: return Val('S', f'({f} O {tr.S(a)} {tr.S(b)})')
@@ -760,8 +1068,18 @@ class FunTx:
             return self.callfun('Point', m, [a, Val('S', tr.S(b))], n)
         self.fail(f'binop {op} on {a.ty!r},{b.ty!r}', n)
 
+    def keyeq(self, kt, n=None):
+        if kt not in KEYEQ: self.fail(f'a dict keyed by {kt!r} (no key equality declared)', n)
+        return KEYEQ[kt]
+
     def compare(self, op, a, b, n):
         tr = self.tr
+        if op in ('In', 'NotIn'):
+            if not (isinstance(b.ty, tuple) and b.ty[0] == 'DICT' and b.tx is not None): self.fail(f'membership in {b.ty!r}', n)
+            kt = tmatch(b.ty[1], tr.rtype(a))
+            if kt is None or kt == '?': self.fail(f'a {tr.rtype(a)!r} looked up in a dict keyed by {b.ty[1]!r}', n)
+            t = f'(dict_mem {self.keyeq(kt, n)} {b.tx} {tr.text(a)})'
+            return Val('B', t if op == 'In' else f'(negb {t})')
         if a.ty == 'K' or b.ty == 'K':
             if a.ty == 'K' and b.ty == 'K':
                 if op in ('Eq', 'Is'): return Val('K', const=a.const == b.const)
@@ -772,7 +1090,30 @@ class FunTx:
                     t = f'(match {o.tx} with None => true | Some _ => false end)'
                     return Val('B', t if op in ('Is', 'Eq') else f'(negb {t})')
                 return Val('K', const=op in ('IsNot', 'NotEq'))
+            if isinstance(k.const, tuple) and k.const[0] in ('localfun', 'cellref') and op in ('Is', 'IsNot') \
+                    and isinstance(o.ty, tuple) and o.ty == tr.rtype(k):
+                # which of the two local functions / deques a run-time reference is
+                t = o.tx if tr.text(k) == 'true' else f'(negb {o.tx})'
+                return Val('B', t if op == 'Is' else f'(negb {t})')
+            if isinstance(k.const, str) and o.ty == 'NT' and op in ('Eq', 'NotEq'):
+                # node.type == "offcurve": only against the three literals of NODE_TYPES
+                if k.const not in NODE_TYPES: self.fail(f'a node type compared with the string {k.const!r}', n)
+                t = f'(nodetype_eqb {o.tx} {NODE_TYPES[k.const]})'
+                return Val('B', t if op == 'Eq' else f'(negb {t})')
             self.fail(f'comparison with constant {k.const!r}', n)
+        pyop = {'Lt': lambda x, y: x < y, 'LtE': lambda x, y: x <= y, 'Gt': lambda x, y: x > y, 'GtE': lambda x, y: x >= y,
+                'Eq': lambda x, y: x == y, 'NotEq': lambda x, y: x != y}
+        if {a.ty, b.ty} == {'SEGLEN', 'I'} and op in pyop:
+            # len(seg) against a literal, seg one of the three classes: decided by the constructor
+            sl = a if a.ty == 'SEGLEN' else b
+            res = [pyop[op](SEGN[t], b.const) if a.ty == 'SEGLEN' else pyop[op](a.const, SEGN[t]) for _, t in SEGSUM]
+            if len(set(res)) == 1: return Val('K', const=res[0])
+            return Val('B', f'(match {sl.tx} with ' + ' | '.join(f'{c} _ => {"true" if r else "false"}' for (c, _), r in zip(SEGSUM, res)) + ' end)')
+        if 'Z' in (a.ty, b.ty) and a.ty in ('Z', 'I') and b.ty in ('Z', 'I') and op in pyop:
+            x, y = self.Zt(a), self.Zt(b)
+            t = {'Lt': f'({x} <? {y})%Z', 'LtE': f'({x} <=? {y})%Z', 'Gt': f'({y} <? {x})%Z', 'GtE': f'({y} <=? {x})%Z',
+                 'Eq': f'({x} =? {y})%Z', 'NotEq': f'(negb ({x} =? {y})%Z)'}[op]
+            return Val('B', t)
         if a.ty == 'I' and b.ty == 'I':
             x, y = a.const, b.const
             return Val('K', const={'Lt': x < y, 'LtE': x <= y, 'Gt': x > y, 'GtE': x >= y, 'Eq': x == y, 'NotEq': x != y}[op])
@@ -781,14 +1122,28 @@ class FunTx:
             t = {'Lt': f'(ltb O {x} {y})', 'LtE': f'(leb O {x} {y})', 'Gt': f'(ltb O {y} {x})', 'GtE': f'(leb O {y} {x})',
                  'Eq': f'(eqb O {x} {y})', 'NotEq': f'(neqb O {x} {y})'}.get(op)
             if t: return Val('B', t)
+        if a.ty == 'SHAPE' and b.ty == 'SHAPE' and op in ('Eq', 'NotEq', 'Is', 'IsNot'):
+            # two of the objects handed to the sweep: identity (see 'SHAPE')
+            t = f'(shape_eqb {a.tx} {b.tx})'
+            return Val('B', t if op in ('Eq', 'Is') else f'(negb {t})')
+        if isinstance(a.ty, tuple) and a.ty[0] in ('FN', 'RF') and a.ty == b.ty and op in ('Is', 'IsNot'):
+            t = f'(Bool.eqb {a.tx} {b.tx})'
+            return Val('B', t if op == 'Is' else f'(negb {t})')
         if a.ty == 'P' and b.ty == 'P' and op in ('Eq', 'NotEq'):
             e = self.callfun('Point', '__eq__', [a, b], n)
             return e if op == 'Eq' else Val('B', f'(negb {e.tx})')
         self.fail(f'compare {op} on {a.ty!r},{b.ty!r}', n)
 
+    def Zt(self, v):
+        """text of a Python int (a literal or a run-time 'Z') as a Coq Z"""
+        if v.ty == 'I': return f'({v.const})%Z'
+        if v.ty == 'Z': return v.tx
+        self.fail(f'expected an int, got {v.ty!r}')
+
     def unify(self, a, b, n):
         """coerce two branch results to a common runtime type; returns (texta, textb, type)"""
         tr = self.tr
+        if {a.ty, b.ty} == {'I', 'Z'}: return (self.Zt(a), self.Zt(b), 'Z')
         if a.ty == 'TUP' and b.ty == 'TUP' and len(a.items) == len(b.items):
             us = [self.unify(x, y, n) for x, y in zip(a.items, b.items)]
             return ('(' + ', '.join(u[0] for u in us) + ')', '(' + ', '.join(u[1] for u in us) + ')', ('T', tuple(u[2] for u in us)))
@@ -855,6 +1210,19 @@ class FunTx:
             return self.property_or_method(v, a, n)
         if v.ty == 'UBB' and a in UNSET_BOX:
             return v.const[a] if v.const[a] is not None else Val('K', const=None)
+        if v.ty in RECORDS:
+            for fa, fty, proj in RECORDS[v.ty][2]:
+                if fa == a: return Val(fty, f'({proj} {v.tx})')
+            return self.property_or_method(v, a, n)
+        if v.ty == 'UOBJ':
+            if v.const['fields'].get(a) is None: self.fail(f'attribute .{a} read before __init__ has set it', n)
+            return v.const['fields'][a]
+        if v.ty == 'SHAPE':
+            if a == 'bounds': return Val('K', const=('shapebounds', v))
+            self.fail(f'attribute .{a} of a shape (only .bounds() is modelled)', n)
+        if v.ty == 'PCLOSED':
+            if a == 'closed': return Val('B', v.tx)
+            self.fail(f'attribute .{a} of a path known only through .closed', n)
         if v.ty == 'PATH':
             if a == 'asSegments':
                 self.tr.fingerprints['path/__init__.py:BezierPath.asSegments'] = fingerprint(find_def('BezierPath', 'asSegments')[1])
@@ -921,12 +1289,25 @@ class FunTx:
             if dynlist(v) and sl.lower is None and sl.step is None and sl.upper is not None:
                 k = self.expr(sl.upper, env)
                 if k.ty == 'S' and k.const == 'int': return Val(v.ty, f'(py_slice_to O {v.tx} {k.tx})')     # l[:k], k a Python int
+                if k.ty == 'Z': return Val(v.ty, f'(py_slice_to_Z {v.tx} {k.tx})')                          # l[:k], k a run-time int (never raises)
+            if dynlist(v) and sl.upper is None and sl.step is None and sl.lower is not None:
+                k = self.expr(sl.lower, env)
+                if k.ty == 'Z': return Val(v.ty, f'(py_slice_from_Z {v.tx} {k.tx})')                        # l[k:]
             self.fail('slice', n)
         i = self.expr(n.slice, env)
         if dynlist(v) and i.ty == 'S' and i.const == 'int' and 'exc' in self.effects:
             x = self.fresh('x')
             self.push_effect({'effects': {'exc'}, 'what': 'indexing by a computed int (IndexError)', 'kind': 'index', 'text': f'{v.tx} {i.tx}', 'pat': x}, n)
             return Val(v.ty[1], x)
+        if dynlist(v) and i.ty == 'Z' and 'exc' in self.effects:
+            x = self.fresh('x')
+            self.push_effect({'effects': {'exc'}, 'what': 'indexing by a run-time int (IndexError)', 'kind': 'indexZ', 'text': f'{v.tx} {i.tx}', 'pat': x}, n)
+            return Val(v.ty[1], x)
+        if v.ty == 'SEG' and i.ty == 'I':
+            # seg[k], seg of any of the three classes (Segment.__getitem__ is self.points[k]): only the indices all three have
+            if i.const not in (0, 1, -1): self.fail(f'index {i.const} of a segment whose class is not known', n)
+            self.tr.fingerprints['segment.py:Segment.__getitem__'] = fingerprint(find_def('Line', '__getitem__')[1])
+            return self.seg_dispatch(v, lambda c, sv: Val('P', f'({SEGPROJ[sv.ty][i.const]} {sv.tx})'), n)
         if v.ty in SEGN and i.ty == 'I':
             k = i.const if i.const >= 0 else i.const + SEGN[v.ty]
             if not 0 <= k < SEGN[v.ty]: self.fail('segment index out of range', n)
@@ -943,6 +1324,10 @@ class FunTx:
             if i.const == -1:
                 x = self.fresh('x')
                 self.push_effect({'effects': {'exc'}, 'what': 'indexing [-1] (IndexError)', 'kind': 'last', 'text': v.tx, 'pat': x}, n)
+                return Val(v.ty[1], x)
+            if i.const == 0 and 'exc' in self.effects:
+                x = self.fresh('x')
+                self.push_effect({'effects': {'exc'}, 'what': 'indexing [0] (IndexError)', 'kind': 'head', 'text': v.tx, 'pat': x}, n)
                 return Val(v.ty[1], x)
             self.fail(f'index {i.const} of a list not known to be long enough', n)
         if isinstance(v.ty, tuple) and v.ty[0] == 'T' and i.ty == 'I':
@@ -1069,7 +1454,8 @@ class FunTx:
 
     def wrap(self, ents, t, ctx, node):
         # a loop body may raise only in a function that declares it; the loop's Fixpoint then returns option (outcome _)
-        allowed = {'fun': set(self.effects), 'loop': {'fuel'} | ({'exc'} & set(self.effects)), 'comp': {'exc'} & set(self.effects), 'pure': set()}[ctx]
+        allowed = {'fun': set(self.effects), 'loop': {'fuel'} | ({'exc'} & set(self.effects)), 'comp': {'exc'} & set(self.effects),
+                   'foldx': set(self.effects), 'pure': set()}[ctx]
         for ent in reversed(ents):
             if not ent['effects'] <= allowed: self.fail(f'{ent["what"]} inside a {ctx} body', node)
             self.occurred |= ent['effects']
@@ -1079,6 +1465,12 @@ class FunTx:
                      f'  else let {ent["pat"]} := (floor_ O {ent["text"]}) in\n  {t}')
             elif ent['kind'] == 'index':
                 t = f'match py_index O {ent["text"]} with\n  | None => {self.raise_text("PyIndexError")}\n  | Some {ent["pat"]} =>\n  {t}\n  end'
+            elif ent['kind'] == 'indexZ':
+                t = f'match py_index_Z {ent["text"]} with\n  | None => {self.raise_text("PyIndexError")}\n  | Some {ent["pat"]} =>\n  {t}\n  end'
+            elif ent['kind'] == 'popleft':
+                t = f'match {ent["text"]} with\n  | [] => {self.raise_text("PyIndexError")}\n  | {ent["pat"]} =>\n  {t}\n  end'
+            elif ent['kind'] == 'head':
+                t = f'match {ent["text"]} with\n  | [] => {self.raise_text("PyIndexError")}\n  | {ent["pat"]} :: _ =>\n  {t}\n  end'
             elif ent['kind'] == 'last':
                 t = f'match last_error {ent["text"]} with\n  | None => {self.raise_text("PyIndexError")}\n  | Some {ent["pat"]} =>\n  {t}\n  end'
             elif ent['effects'] == {'fuel'}:
@@ -1145,6 +1537,7 @@ class FunTx:
                 self.fail('isinstance form', n)
             v = self.expr(n.args[0], env)
             if isinstance(v.ty, str) and v.ty in CLASS_OF: return Val('K', const=(CLASS_OF[v.ty] == n.args[1].id))
+            if v.ty == 'PCLOSED': return Val('K', const=(n.args[1].id == 'BezierPath'))
             self.fail(f'isinstance of {v.ty!r}', n)
         args = [self.expr(a, env) if not isinstance(a, ast.Starred) else Val('STAR', items=self.expr(a.value, env)) for a in n.args]
         kwargs = {k.arg: self.expr(k.value, env) for k in n.keywords}
@@ -1166,7 +1559,15 @@ class FunTx:
                 if a.ty in SEGN: return Val('I', const=SEGN[a.ty])
                 if a.ty in ('FL', 'TUP'): return Val('I', const=len(a.items))
                 if isinstance(a.ty, tuple) and a.ty[0] == 'L': return Val('LEN', tx=a.tx)
+                if a.ty == 'SEG':       # Segment.__len__ is len(self.points): 2, 3 or 4 by the class
+                    self.tr.fingerprints['segment.py:Segment.__len__'] = fingerprint(find_def('Line', '__len__')[1])
+                    return Val('SEGLEN', tx=a.tx)
                 self.fail('len', n)
+            if name == 'enumerate' and len(args) == 1 and not kwargs:
+                a = args[0]
+                if isinstance(a.ty, tuple) and a.ty[0] == 'L' and a.ty[1] != '?' and a.tx is not None:
+                    return Val(('L', ('T', ('Z', a.ty[1]))), f'(enumerate_Z {a.tx})')
+                self.fail(f'enumerate of {a.ty!r}', n)
             if name == 'float':
                 a = args[0]
                 return Val('S', tr.S(a))
@@ -1179,6 +1580,17 @@ class FunTx:
             if name == 'isclose':
                 if kwargs: self.fail('isclose with tolerances', n)
                 return Val('B', f'(isclose O {tr.S(args[0])} {tr.S(args[1])})')
+            if name == 'deque' and imports_name(self.path, 'deque', 'collections'):
+                if len(args) == 1 and not kwargs and args[0].ty == 'FL' and not args[0].items: return Val(('DQ', '?'), '[]')
+                self.fail('deque(..) of anything but an empty list literal', n)
+            if name == 'sorted' and set(kwargs) == {'key'} and len(args) == 1 and kwargs['key'].ty == 'K' and isinstance(kwargs['key'].const, tuple) \
+                    and kwargs['key'].const[0] == 'lambda':
+                # sorted(l, key=lambda x: <float>): stable, the keys compared with < only (sorted_by of the prelude)
+                a = args[0]
+                if not (isinstance(a.ty, tuple) and a.ty[0] == 'L' and a.ty[1] != '?' and a.tx is not None): self.fail(f'sorted(key=) of {a.ty!r}', n)
+                body, ftx = self.lambda_text(kwargs['key'], [a.ty[1]], n)
+                if body.ty not in ('S', 'I'): self.fail(f'sort key of type {body.ty!r}', n)
+                return Val(a.ty, f'(sorted_by O {ftx} {a.tx})')
             if name == 'sorted':
                 a = args[0]
                 if kwargs: self.fail('sorted with key', n)
@@ -1206,6 +1618,9 @@ class FunTx:
                     # zip of two lists stops at the shorter one, as List.combine does
                     return Val(('L', ('T', (args[0].ty[1], args[1].ty[1]))), f'(combine {args[0].tx} {args[1].tx})')
                 self.fail('dynamic zip', n)
+            if name in RECORD_OF_CLASS:
+                if not self.names_class(name): self.fail(f'{name} is not the class of {MODULE_OF_CLASS[name]} here', n)
+                return self.construct(name, args, n, kwargs)
             if name in TY_OF_CLASS or name == 'klass' or name == 'Intersection':
                 return self.construct(name, args, n)
             if (self.path, name) in INT_FUNS or (self.path, ALIASES.get((self.path, name))) in INT_FUNS:
@@ -1224,6 +1639,10 @@ class FunTx:
                 return self.call_modfun(p, name, args, kwargs, n)
             self.fail(f'call of {name}', n)
         fv = self.expr(f, env)
+        if isinstance(fv.ty, tuple) and fv.ty[0] == 'FUN':
+            # a parameter that is a function: applied
+            if kwargs or len(args) != len(fv.ty[1]): self.fail('call of a function parameter: arity', n)
+            return Val(fv.ty[2], '(' + ' '.join([fv.tx] + [self.as_type(a, t, n) for a, t in zip(args, fv.ty[1])]) + ')')
         if fv.ty == 'K' and isinstance(fv.const, tuple):
             kind = fv.const[0]
             if kind == 'math':
@@ -1240,7 +1659,7 @@ class FunTx:
                 if m == 'isclose': return Val('B', f'(isclose O {tr.S(args[0])} {tr.S(args[1])})')
                 self.fail(f'math.{m}', n)
             if kind == 'class':
-                return self.construct(fv.const[1], args, n)
+                return self.construct(fv.const[1], args, n, kwargs if fv.const[1] in RECORD_OF_CLASS else None)
             if kind == 'classattr':
                 _, cls, a = fv.const
                 if a == 'fromRepr': self.fail('fromRepr', n)
@@ -1264,6 +1683,9 @@ class FunTx:
                 return self.callfun(cls, a, [recv] + vals, n, consts)
             if kind == 'localfun':
                 return self.inline(self.localfuns[fv.const[1]], args, kwargs, n)
+            if kind == 'shapebounds':
+                if args or kwargs: self.fail('bounds() with arguments', n)
+                return Val('BB', f'(snd {fv.const[1].tx})')
             if kind == 'asSegments':
                 if args or kwargs: self.fail('asSegments with arguments', n)
                 return Val(('L', 'SEG'), fv.const[1].tx)
@@ -1320,11 +1742,13 @@ class FunTx:
         if tr.rtype(v) != t: self.fail(f'argument type {tr.rtype(v)!r} where {t!r} expected in {what}', n)
         return v
 
-    def construct(self, name, args, n):
+    def construct(self, name, args, n, kwargs=None):
         tr = self.tr
         if name == 'klass':
             if self.cls is None: self.fail('klass outside class', n)
             name = self.cls
+        if name in RECORD_OF_CLASS:
+            return self.construct_record(name, args, kwargs or {}, n)
         flat = []
         for a in args:
             if a.ty == 'STAR':
@@ -1353,6 +1777,47 @@ class FunTx:
             pnt = self.callfun(CLASS_OF[seg1.ty], 'pointAtTime', [seg1, Val('S', tr.S(t1))], n)
             return Val('IX', f'({tr.S(t1)}, {pnt.tx}, {tr.S(t2)})')
         self.fail(f'constructor {name}', n)
+
+    def construct_record(self, name, args, kwargs, n):
+        """an instance of a class modelled as a record: the class's __init__ is run on an object with no attribute set"""
+        tr = self.tr
+        ty = RECORD_OF_CLASS[name]
+        _, con, fields = RECORDS[ty]
+        if any(a.ty == 'STAR' for a in args): self.fail(f'{name}(*args)', n)
+        path, fd, defcls = find_def(name, '__init__')
+        tr.fingerprints[f'{path}:{defcls}.__init__'] = fingerprint(fd)
+        if fd.args.vararg or fd.args.kwarg or fd.args.kwonlyargs: self.fail(f'{name}.__init__ signature', n)
+        vals = self.bindargs(fd, args, kwargs, n, skip_self=True, defpath=path)
+        params = [a.arg for a in fd.args.args]
+        sub = FunTx(tr, path, name, fd)
+        sub.counter = self.counter + 1000 * (1 + len(tr.fingerprints))
+        env = {params[0]: Val('UOBJ', const={'cls': name, 'fields': {fa: None for fa, _, _ in fields}})}
+        for p, v in zip(params[1:], vals): env[p] = v
+        def finish(e):
+            o = e[params[0]]
+            if o.ty != 'UOBJ': self.fail(f'{name}.__init__ rebinds self', n)
+            parts = []
+            for fa, fty, _ in fields:
+                fv = o.const['fields'][fa]
+                if fv is None: self.fail(f'{name}.__init__ leaves .{fa} unset', n)
+                parts.append(self.as_type(fv, fty, n))
+            return Val(ty, f'({con} {" ".join(parts)})')
+        r = sub.in_ctx('pure', lambda: sub.block(fd.body, env, finish, lambda v, e: finish(e) if (v.ty == 'K' and v.const is None) else self.fail(f'{name}.__init__ returns a value', n)))
+        if r.ty != ty: self.fail(f'{name}.__init__ does not end with every attribute set', n)
+        return r
+
+    def as_type(self, v, t, n=None):
+        """text of v as a runtime value of type t (the declared type of a record field / of an accumulator)"""
+        tr = self.tr
+        if t == 'Z' and v.ty in ('I', 'Z'): return self.Zt(v)
+        if t == 'S' and v.ty in ('I', 'S', 'LEN', 'Z'): return tr.S(v)
+        if v.ty == 'FL' and not v.items and isinstance(t, tuple) and t[0] == 'L': return '[]'
+        if t == 'SEG' and v.ty in SEGN: return f'({[c for c, k in SEGSUM if k == v.ty][0]} {v.tx})'
+        if v.ty == 'FL' and isinstance(t, tuple) and t[0] == 'L':
+            return '[' + '; '.join(self.as_type(i, t[1], n) for i in v.items) + ']'
+        vt = tr.rtype(v)
+        if tmatch(vt, t) is None: self.fail(f'a value of type {vt!r} where {t!r} is expected', n)
+        return tr.text(v)
 
     def inline(self, fd, args, kwargs, n):
         vals = self.bindargs(fd, args, kwargs, n, skip_self=False)
@@ -1426,6 +1891,20 @@ class FunTx:
                         and isinstance(x.value.func.value, ast.Name):
                     add(x.value.func.value.id)
                 if isinstance(x, ast.For) and isinstance(x.iter, ast.Name) and x.iter.id in env and env[x.iter.id].ty == 'FL': add(x.iter.id)
+                if isinstance(x, ast.If) and isinstance(x.test, ast.Compare) and len(x.test.ops) == 1 and isinstance(x.test.ops[0], ast.In) \
+                        and isinstance(x.test.comparators[0], ast.Name) and x.test.comparators[0].id in env \
+                        and isinstance(env[x.test.comparators[0].id].ty, tuple) and env[x.test.comparators[0].id].ty[0] == 'DICT':
+                    add(x.test.comparators[0].id)      # `if k in d: x = d[k]; ..`: the value aliased by x is stored back (dict_alias_idiom)
+                if self.cells and isinstance(x, ast.Expr) and isinstance(x.value, ast.Call):
+                    # in a function whose deques are referred to by tuples and closures: a method call on / an in-place update of
+                    # something that may be a reference to them updates (one of) them
+                    fn = x.value.func
+                    r = fn.value if isinstance(fn, ast.Attribute) else (x.value.args[0] if isinstance(fn, ast.Name) and x.value.args and self.modfun_path(fn.id)
+                                                                         and ('mod:' + self.modfun_path(fn.id), fn.id) in MUTATED_PARAM else None)
+                    if isinstance(r, ast.Name) and (r.id not in env or self.is_ref(env[r.id]) or r.id in self.cells):
+                        if r.id in self.cells: add(r.id)
+                        else:
+                            for c_ in self.cells: add(c_)
         return out
 
     def bind(self, name, v, env, k):
@@ -1473,7 +1952,21 @@ class FunTx:
             v = self.expr(s.value, env) if s.value is not None else Val('K', const=None)
             return ret(v, env)
         if isinstance(s, ast.Raise):
+            # raise ValueError(<literal>) / IndexError(<literal>) in a function declared to raise, at statement level of the function
+            # body or of a loop translated with fold_outcome (the message is not modelled)
+            x = s.exc
+            if 'exc' in self.effects and s.cause is None and isinstance(x, ast.Call) and isinstance(x.func, ast.Name) and x.func.id in PYEXC \
+                    and x.func.id not in env and x.func.id not in self.localfuns and not x.keywords and all(isinstance(a, ast.Constant) for a in x.args) \
+                    and self.ctx_stack[-1] in ('fun', 'foldx') and self.pure_depth == 0:
+                self.occurred.add('exc')
+                ty = mtype(self.effects, '?')
+                return Val(ty, self.raise_text(PYEXC[x.func.id]))
             self.fail('reachable raise', s)
+        if isinstance(s, ast.Assert):
+            # only an assertion that is true at translation time (isinstance of a value whose class is known)
+            c = self.purely(lambda: self.truth(self.expr(s.test, env), s))
+            if c.ty == 'K' and c.const is True: return k(env)
+            self.fail('assert that is not a translation-time truth', s)
         if isinstance(s, ast.FunctionDef):
             self.localfuns[s.name] = s
             self.closure_env = env
@@ -1481,7 +1974,41 @@ class FunTx:
         if isinstance(s, ast.Assign):
             if len(s.targets) != 1: self.fail('multiple targets', s)
             t = s.targets[0]
-            v = self.expr(s.value, env)
+            sv = s.value
+            if isinstance(t, ast.Name) and isinstance(sv, ast.Call) and isinstance(sv.func, ast.Attribute) and sv.func.attr == 'pop' \
+                    and isinstance(sv.func.value, ast.Name) and sv.func.value.id in env and not sv.keywords and len(sv.args) == 1 \
+                    and isinstance(sv.args[0], ast.Constant) and type(sv.args[0].value) is int and sv.args[0].value == 0 and t.id != sv.func.value.id:
+                # x = l.pop(0): only where l is known to be h :: t (under a test of its emptiness)
+                L = sv.func.value.id
+                lv = env[L]
+                if not (isinstance(lv.ty, tuple) and lv.ty[0] == 'L' and isinstance(lv.const, tuple) and lv.const[0] == 'cons'):
+                    self.fail('x = l.pop(0) from a list not known to be non-empty', s)
+                e2 = dict(env); e2[L] = Val(lv.ty, lv.const[2])
+                return self.bind(t.id, Val(lv.ty[1], lv.const[1]), e2, k)
+            if isinstance(t, ast.Attribute) and t.attr == 'activeRepresentation' and isinstance(t.value, ast.Name) and t.value.id in env \
+                    and env[t.value.id].ty == 'PATH':
+                # path.activeRepresentation = SegmentRepresentation(path, segs): from now on path.asSegments() is segs (SegmentRepresentation
+                # stores the list -- or a fresh [] when it is empty -- and data() hands it back): the path, as the list of its segments, is segs
+                X = t.value.id
+                if not (isinstance(sv, ast.Call) and isinstance(sv.func, ast.Name) and sv.func.id == 'SegmentRepresentation' and sv.func.id not in env
+                        and self.names_class('SegmentRepresentation') and not sv.keywords and len(sv.args) == 2
+                        and isinstance(sv.args[0], ast.Name) and sv.args[0].id == X):
+                    self.fail('activeRepresentation set to anything but SegmentRepresentation(<the path itself>, <segments>)', s)
+                self.tr.fingerprints['path/representations/Segment.py:SegmentRepresentation.__init__'] = fingerprint(find_def('SegmentRepresentation', '__init__')[1])
+                self.tr.fingerprints['path/representations/Segment.py:SegmentRepresentation.data'] = fingerprint(find_def('SegmentRepresentation', 'data')[1])
+                segs = self.expr(sv.args[1], env)
+                return self.bind(X, Val('PATH', self.as_type(segs, ('L', 'SEG'), s)), env, k)
+            if isinstance(t, ast.Name) and isinstance(sv, ast.Call) and isinstance(sv.func, ast.Attribute) and sv.func.attr == 'popleft' \
+                    and isinstance(sv.func.value, ast.Name) and sv.func.value.id in env and not sv.args and not sv.keywords:
+                # x = d.popleft(), d a deque: IndexError when d is empty, else x is its first item and d loses it
+                D = sv.func.value.id
+                dv = env[D]
+                if not (isinstance(dv.ty, tuple) and dv.ty[0] == 'DQ' and dv.ty[1] != '?' and dv.tx is not None): self.fail(f'popleft on a {dv.ty!r}', s)
+                h, tl = self.fresh(f'v_{D}_hd'), self.fresh(f'v_{D}_tl')
+                self.push_effect({'effects': {'exc'}, 'what': 'deque.popleft() (IndexError)', 'kind': 'popleft', 'text': dv.tx, 'pat': f'{h} :: {tl}'}, s)
+                e2 = dict(env); e2[D] = Val(dv.ty, tl)
+                return self.bind(t.id, Val(dv.ty[1], h), e2, k)
+            v = self.ref_or_value(s.value, env) if isinstance(t, ast.Name) else self.expr(s.value, env)
             nx = rest[0] if rest else None
             if isinstance(t, ast.Name) and isinstance(nx, ast.Assign) and len(nx.targets) == 1 and isinstance(nx.targets[0], ast.Attribute) \
                     and nx.targets[0].attr == '_orig' and isinstance(nx.targets[0].value, ast.Name) and nx.targets[0].value.id == t.id:
@@ -1507,6 +2034,16 @@ class FunTx:
         if isinstance(s, ast.Expr) and isinstance(s.value, ast.Call):
             return self.stmt_call(s.value, env, k, s)
         if isinstance(s, ast.If):
+            da = self.dict_append_idiom(s, rest, env)
+            if da is not None:
+                D, kn, xn = da
+                d = env[D]
+                kv, xv = self.expr(kn, env), self.expr(xn, env)
+                kt = tmatch(d.ty[1], tr.rtype(kv))
+                vt = tmatch(d.ty[2], ('L', tr.rtype(xv)))
+                if kt is None or kt == '?' or vt is None: self.fail(f'd[k].append(x) with k : {tr.rtype(kv)!r}, x : {tr.rtype(xv)!r} in a {d.ty!r}', s)
+                nv = Val(('DICT', kt, vt), f'(dict_append {self.keyeq(kt, s)} {d.tx} {tr.text(kv)} {self.as_type(xv, vt[1], s)})')
+                return self.bind(D, nv, env, lambda e: self.block(rest[1:], e, cont, ret))
             return self.stmt_if(s, rest, env, cont, ret)
         if isinstance(s, ast.For):
             return self.stmt_for(s, rest, env, cont, ret)
@@ -1561,6 +2098,17 @@ class FunTx:
                 # self.points = [...]: the new list must have exactly the points of this class of segment
                 if v.ty != 'FL' or len(v.items) != SEGN[recv.ty] or any(p.ty != 'P' for p in v.items): self.fail('assignment to .points', s)
                 return self.bind(t.value.id, Val(recv.ty, f'({SEGCON[SEGN[recv.ty]]} {" ".join(p.tx for p in v.items)})'), env, k)
+            if recv.ty == 'UOBJ':
+                # self.attr = v inside the __init__ of a class modelled as a record
+                if t.attr not in recv.const['fields']: self.fail(f'{recv.const["cls"]} has no modelled attribute .{t.attr}', s)
+                fty = [f[1] for f in RECORDS[RECORD_OF_CLASS[recv.const['cls']]][2] if f[0] == t.attr][0]
+                if isinstance(fty, tuple) and fty[0] == 'L' and not (v.ty == 'FL' and not v.items):
+                    self.fail(f'.{t.attr} is set to a list that may be shared with another object (only a fresh [] is modelled)', s)
+                nv = v if (v.ty == 'FL' and not v.items) else Val(fty, self.as_type(v, fty, s))
+                e2 = dict(env); e2[t.value.id] = Val('UOBJ', const={'cls': recv.const['cls'], 'fields': dict(recv.const['fields'], **{t.attr: nv})})
+                return k(e2)
+            if recv.ty in RECORDS:
+                return self.bind(t.value.id, self.with_field(recv, t.attr, v, s), env, k)
             if recv.ty == 'UBB' and t.attr in UNSET_BOX and v.ty == 'P':
                 fields = dict(recv.const)
                 if all(fields[c] is not None for c in UNSET_BOX if c != t.attr):
@@ -1575,6 +2123,15 @@ class FunTx:
                 e2 = dict(env); e2[t.value.id] = Val('UBB', const=fields)
                 r = k(e2)
                 return self.retext(r, f'let {nm} := {v.tx} in\n  {tr.text(r)}')
+        if isinstance(t, ast.Subscript) and isinstance(t.value, ast.Name) and t.value.id in env and isinstance(env[t.value.id].ty, tuple) \
+                and env[t.value.id].ty[0] == 'DICT' and not isinstance(t.slice, ast.Slice):
+            # d[k] = v
+            d = env[t.value.id]
+            kv = self.expr(t.slice, env)
+            kt = tmatch(d.ty[1], tr.rtype(kv))
+            vt = tmatch(d.ty[2], tr.rtype(v))
+            if kt is None or kt == '?' or vt is None: self.fail(f'd[k] = v with k : {tr.rtype(kv)!r}, v : {tr.rtype(v)!r} in a {d.ty!r}', s)
+            return self.bind(t.value.id, Val(('DICT', kt, vt), f'(dict_set {self.keyeq(kt, s)} {d.tx} {tr.text(kv)} {tr.text(v)})'), env, k)
         if isinstance(t, ast.Subscript) and isinstance(t.value, ast.Name) and t.value.id in env and env[t.value.id].ty in SEGN \
                 and not isinstance(t.slice, ast.Slice):
             # seg[k] = point  (Segment.__setitem__: self.points[key] = item)
@@ -1598,6 +2155,13 @@ class FunTx:
                 nv = Val('BB', f'(BB {np} (tr {recv.tx}))' if c == 'bl' else f'(BB (bl {recv.tx}) {np})')
                 return self.bind(nm, nv, env, k)
         self.fail('assignment target', s)
+
+    def with_field(self, recv, attr, v, s):
+        """the record value recv with attribute attr replaced by v"""
+        _, con, fields = RECORDS[recv.ty]
+        if attr not in [f[0] for f in fields]: self.fail(f'{RECORDS[recv.ty][0]} has no modelled attribute .{attr}', s)
+        parts = [self.as_type(v, fty, s) if fa == attr else f'({proj} {recv.tx})' for fa, fty, proj in fields]
+        return Val(recv.ty, f'({con} {" ".join(parts)})')
 
     def check_corner_ownership(self, s):
         """`box.bl.x = v` updates a Point in place.  The record model is only right when that Point is referenced from nowhere
@@ -1628,12 +2192,41 @@ class FunTx:
         tr = self.tr
         f = c.func
         if isinstance(f, ast.Name) and f.id == 'print': return k(env)
+        if isinstance(f, ast.Attribute) and f.attr == 'append' and isinstance(f.value, ast.Attribute) and isinstance(f.value.value, ast.Name) \
+                and f.value.value.id in env and env[f.value.value.id].ty in RECORDS and len(c.args) == 1 and not c.keywords:
+            # obj.field.append(x), obj a record: the field is a list owned by the record (nothing else refers to it: the records
+            # are built by their own __init__ from fresh lists, see construct_record)
+            nm, fa = f.value.value.id, f.value.attr
+            recv = env[nm]
+            cur = self.attribute(f.value, env)
+            if not (isinstance(cur.ty, tuple) and cur.ty[0] == 'L' and cur.ty[1] != '?'): self.fail(f'.append on attribute .{fa} of type {cur.ty!r}', s)
+            a = self.expr(c.args[0], env)
+            nl = Val(cur.ty, f'({cur.tx} ++ [{self.as_type(a, cur.ty[1], s)}])')
+            return self.bind(nm, self.with_field(recv, fa, nl, s), env, k)
+        if isinstance(f, ast.Name) and f.id not in env and f.id not in self.localfuns and self.modfun_path(f.id) \
+                and ('mod:' + self.modfun_path(f.id), f.id) in MUTATED_PARAM:
+            return self.stmt_call_updating(c, env, k, s)
+        if isinstance(f, ast.Attribute) and isinstance(f.value, ast.Name) and f.value.id in env and self.is_ref(env[f.value.id]):
+            # r.append(x), r a reference to one of the local deques: the deque it refers to is updated
+            if f.attr != 'append' or len(c.args) != 1 or c.keywords: self.fail(f'.{f.attr} through a reference to a deque', s)
+            x = self.expr(c.args[0], env)
+            def upd(cur):
+                ty = cur.ty if cur.ty[1] != '?' else ('DQ', tr.rtype(x))
+                return Val(ty, f'({cur.tx} ++ [{self.as_type(x, ty[1], s)}])')
+            return self.update_through(env[f.value.id], upd, env, k, s)
         if isinstance(f, ast.Attribute) and isinstance(f.value, ast.Name) and f.value.id in env:
             nm = f.value.id
             recv = env[nm]
             args = [self.expr(a, env) for a in c.args]
             kwargs = {kw.arg: self.expr(kw.value, env) for kw in c.keywords}
             lty = recv.ty
+            if nm in self.closure_params and (lty == 'FL' or (isinstance(lty, tuple) and lty[0] in ('L', 'DQ'))):
+                # the parameter of an expanded local function holds a copy of the argument's VALUE: updating it in place would not
+                # reach the caller's object (only references to the local deques do)
+                self.fail(f'in-place update of the list {nm.split("__")[-1]} received as an argument by a local function', s)
+            if isinstance(lty, tuple) and lty[0] == 'DQ' and f.attr == 'append' and len(args) == 1 and not kwargs:
+                if lty[1] == '?': lty = ('DQ', tr.rtype(args[0]))
+                return self.bind(nm, Val(lty, f'({recv.tx} ++ [{self.as_type(args[0], lty[1], s)}])'), env, k)
             if lty == 'FL' or (isinstance(lty, tuple) and lty[0] == 'L'):
                 if f.attr == 'append':
                     if lty == 'FL':
@@ -1668,6 +2261,74 @@ class FunTx:
                 nv = self.callfun(cls, f.attr, [recv] + vals, s, consts)
                 return self.bind(nm, nv, env, k)
         self.fail('statement-level call', s)
+
+    def is_ref(self, v):
+        return (v.ty == 'K' and isinstance(v.const, tuple) and v.const[0] == 'cellref') or (isinstance(v.ty, tuple) and v.ty[0] == 'RF')
+
+    def update_through(self, r, upd, env, k, s):
+        """replace the deque the reference r stands for by upd(<its current value>): the cell itself when r is static, else each of
+        the two candidates conditionally"""
+        tr = self.tr
+        if r.ty == 'K':
+            c = r.const[1]
+            return self.bind(c, upd(env[c]), env, k)
+        cands = r.ty[1]
+        cur = [env[c] for c in cands]
+        new = [upd(v) for v in cur]
+        ty = tmatch(new[0].ty, new[1].ty)
+        if ty is None: self.fail(f'the two deques have different types {new[0].ty!r} / {new[1].ty!r}', s)
+        v0 = Val(ty, f'(if {r.tx} then {new[0].tx} else {tr.text(cur[0])})')
+        v1 = Val(ty, f'(if {r.tx} then {tr.text(cur[1])} else {new[1].tx})')
+        return self.bind(cands[0], v0, env, lambda e: self.bind(cands[1], v1, e, k))
+
+    def stmt_call_updating(self, c, env, k, s):
+        """statement `g(x, a2, ..)`, g a module function that returns None and updates its first-listed MUTATED_PARAM in place; x a
+        variable holding a deque, or a reference to one of the local deques.  g x a2 .. is the new value of it."""
+        tr = self.tr
+        name = c.func.id
+        path = self.modfun_path(name)
+        fd = find_modfun(path, name)
+        mp = MUTATED_PARAM[('mod:' + path, name)]
+        params = [a.arg for a in fd.args.args]
+        sig = MODSIG[(path, name)]
+        if c.keywords or len(c.args) != len(params) or fd.args.defaults or any(isinstance(a, ast.Starred) for a in c.args): self.fail(f'call of {name}: only plain positional arguments', s)
+        i = params.index(mp)
+        an = c.args[i]
+        if not (isinstance(an, ast.Name) and an.id in env): self.fail(f'{name} updates its argument {mp} in place: it must be a variable', s)
+        target = env[an.id]
+        if isinstance(target.ty, tuple) and target.ty[0] == 'DQ':
+            if an.id not in self.cells and self.cells: self.fail(f'{an.id} may share its deque with a cell', s)
+            target_ref = None
+        elif self.is_ref(target): target_ref = target
+        else: self.fail(f'{name} updates a {target.ty!r} in place', s)
+        cur = self.deref(target, env, s) if target_ref is not None else target
+        vals = []
+        for j, (a, t) in enumerate(zip(c.args, sig)):
+            if j == i:
+                m = tmatch(cur.ty, t)
+                if m is None: self.fail(f'argument type {cur.ty!r} where {t!r} expected in {name}', s)
+                vals.append(tr.text(cur)); continue
+            v = self.expr(a, env)
+            if isinstance(t, tuple) and t[0] == 'FUN':
+                if not (v.ty == 'K' and isinstance(v.const, tuple) and v.const[0] == 'lambda'): self.fail(f'{name}: argument {params[j]} must be a lambda', s)
+                body, ftx = self.lambda_text(v, list(t[1]), s)
+                if tmatch(tr.rtype(body), t[2]) is None: self.fail(f'{name}: the lambda returns {tr.rtype(body)!r}, {t[2]!r} expected', s)
+                vals.append(ftx)
+            else:
+                vals.append(self.as_type(v, t, s))
+        cname, rty, file = tr.function('mod:' + path, name)
+        m = is_mtype(rty)
+        if m is None:
+            new = Val(rty, f'({cname} O {" ".join(vals)})')
+        else:
+            eff, inner = m
+            if 'fuel' in eff: self.fail(f'{name} consumes fuel', s)
+            r = self.fresh('r')
+            self.push_effect({'effects': set(eff), 'what': f'call of {cname}', 'kind': 'call', 'text': f'({cname} O {" ".join(vals)})', 'pat': r}, s)
+            new = Val(inner, r)
+        new = Val(sig[i] if tmatch(new.ty, sig[i]) is not None else new.ty, new.tx)
+        if target_ref is None: return self.bind(an.id, new, env, k)
+        return self.update_through(target_ref, lambda cur_: new, env, k, s)
 
     def narrow(self, test, env):
         """Optional-typed name tested for None / truthiness -> (name, value, mode)"""
@@ -1704,8 +2365,130 @@ class FunTx:
         e2 = dict(env); e2[X] = Val(env[X].ty, f'({h} :: {t})', const=('cons', h, t))
         return e2, h, t
 
+    def dict_append_idiom(self, s, rest, env):
+        """`if K not in D: D[K] = []` immediately followed by `D[K].append(X)`, D a dict variable, K and X names -> (D, K node, X node)"""
+        t = s.test
+        if not (isinstance(t, ast.Compare) and len(t.ops) == 1 and isinstance(t.ops[0], ast.NotIn) and isinstance(t.left, ast.Name)
+                and isinstance(t.comparators[0], ast.Name) and not s.orelse and len(s.body) == 1 and rest): return None
+        D, K = t.comparators[0].id, t.left.id
+        if D not in env or not (isinstance(env[D].ty, tuple) and env[D].ty[0] == 'DICT') or K not in env or D == K: return None
+        def is_item(x, ctx): return isinstance(x, ast.Subscript) and isinstance(x.ctx, ctx) and isinstance(x.value, ast.Name) and x.value.id == D \
+            and isinstance(x.slice, ast.Name) and x.slice.id == K
+        a = s.body[0]
+        if not (isinstance(a, ast.Assign) and len(a.targets) == 1 and is_item(a.targets[0], ast.Store) and isinstance(a.value, ast.List) and not a.value.elts): return None
+        c = rest[0]
+        if not (isinstance(c, ast.Expr) and isinstance(c.value, ast.Call) and isinstance(c.value.func, ast.Attribute) and c.value.func.attr == 'append'
+                and is_item(c.value.func.value, ast.Load) and len(c.value.args) == 1 and not c.value.keywords and isinstance(c.value.args[0], ast.Name)
+                and c.value.args[0].id not in (D, K)): return None
+        return D, t.left, c.value.args[0]
+
+    def dict_alias_idiom(self, s, rest, env):
+        """`if K in D:` whose body starts with `X = D[K]` (see 'DICT') -> (D, K, X)"""
+        t = s.test
+        if not (isinstance(t, ast.Compare) and len(t.ops) == 1 and isinstance(t.ops[0], ast.In) and isinstance(t.left, ast.Name)
+                and isinstance(t.comparators[0], ast.Name) and s.body): return None
+        D, K = t.comparators[0].id, t.left.id
+        if D not in env or not (isinstance(env[D].ty, tuple) and env[D].ty[0] == 'DICT') or K not in env or D == K: return None
+        a = s.body[0]
+        if not (isinstance(a, ast.Assign) and len(a.targets) == 1 and isinstance(a.targets[0], ast.Name) and isinstance(a.value, ast.Subscript)
+                and isinstance(a.value.value, ast.Name) and a.value.value.id == D and isinstance(a.value.slice, ast.Name) and a.value.slice.id == K): return None
+        X = a.targets[0].id
+        if X in (D, K) or X in env: self.fail(f'{X} = {D}[{K}]: the alias must be a new variable', s)
+        def mentions(stmts, nm): return any(isinstance(y, ast.Name) and y.id == nm for st in stmts for y in ast.walk(st))
+        if mentions(s.body[1:], D): self.fail(f'{D} is used while {X} aliases one of its values', s)
+        if mentions(s.orelse, X) or mentions(rest, X) or any(X in l for l in self.live_stack): self.fail(f'{X} (an alias of a value of {D}) is used after the `if`', s)
+        # the alias may only be consumed / updated in place, never copied or handed to something else
+        parent = {}
+        for st in s.body[1:]:
+            for x in ast.walk(st):
+                for c in ast.iter_child_nodes(x): parent[c] = x
+        for st in s.body[1:]:
+            for x in ast.walk(st):
+                if isinstance(x, ast.Name) and x.id == X:
+                    p = parent.get(x)
+                    ok = (isinstance(p, ast.Call) and isinstance(p.func, ast.Name) and p.func.id == 'len' and p.args == [x]) \
+                        or (isinstance(p, ast.Attribute) and p.attr in ('pop', 'append') and isinstance(parent.get(p), ast.Call) and parent[p].func is p) \
+                        or (isinstance(p, ast.Subscript) and p.value is x and not isinstance(p.slice, ast.Slice))
+                    if not ok: self.fail(f'the alias {X} of a value of {D} is used other than by len / pop / append / indexing', x)
+        return D, K, X
+
+    def len_eq_test(self, t, env):
+        """`len(X) == k` for a dynamic list variable X and a literal k >= 1 -> (X, k)"""
+        if isinstance(t, ast.Compare) and len(t.ops) == 1 and isinstance(t.ops[0], ast.Eq) and isinstance(t.left, ast.Call) \
+                and isinstance(t.left.func, ast.Name) and t.left.func.id == 'len' and 'len' not in env and 'len' not in self.localfuns \
+                and not t.left.keywords and len(t.left.args) == 1 and isinstance(t.left.args[0], ast.Name) \
+                and isinstance(t.comparators[0], ast.Constant) and type(t.comparators[0].value) is int and t.comparators[0].value >= 1:
+            X = t.left.args[0].id
+            if X in env and isinstance(env[X].ty, tuple) and env[X].ty[0] == 'L' and env[X].ty[1] != '?' and env[X].tx is not None:
+                return (X, t.comparators[0].value)
+        return None
+
+    def items_view(self, X, k, env):
+        """environment in which the dynamic list X is known to be [x1; ..; xk] (a translation-time list of its items), and the pattern"""
+        names = [self.fresh(f'v_{X}_it') for _ in range(k)]
+        e2 = dict(env); e2[X] = Val('FL', items=[Val(env[X].ty[1], nm) for nm in names])
+        return e2, '[' + '; '.join(names) + ']'
+
+    def seg_len_var(self, test, env):
+        """a variable X holding a segment of unknown class ('SEG') whose len(X) occurs in the test, or None"""
+        if 'len' in env or 'len' in self.localfuns: return None
+        for x in ast.walk(test):
+            if isinstance(x, ast.Call) and isinstance(x.func, ast.Name) and x.func.id == 'len' and not x.keywords and len(x.args) == 1 \
+                    and isinstance(x.args[0], ast.Name) and x.args[0].id in env and env[x.args[0].id].ty == 'SEG':
+                return x.args[0].id
+        return None
+
+    def split_on_class(self, X, s, rest, env, cont, ret):
+        """an `if` that asks for len(X), X a segment of unknown class: the statement (and what follows it) is translated once for each
+        of the three classes, under `match X with SLine s => .. | SQuad s => .. | SCubic s => .. end`; in each arm X has a known
+        class, so len(X) is a literal and X[k] a field (or, out of range, Untranslatable only if that arm can reach it)"""
+        if X in self.assigned(s.body + s.orelse, env): self.fail(f'{X} is rebound under a test of its len()', s)
+        arms = []
+        for con, t in SEGSUM:
+            nm = self.fresh('s')
+            e2 = dict(env); e2[X] = Val(t, nm)
+            arms.append((con, nm, self.stmt_if(s, rest, e2, cont, ret)))
+        vals = [a[2] for a in arms]
+        if all(v.ty == 'K' and v.const is None for v in vals): return vals[0]
+        x0, x1, t01 = self.unify(vals[0], vals[1], s)
+        x0b, x2, t = self.unify(Val(t01, x0), vals[2], s)
+        if t != t01: self.fail(f'the three classes of segment give different types: {t01!r} / {t!r}', s)
+        texts = [x0b, x1, x2]
+        return Val(t, f'(match {env[X].tx} with' + ''.join(f'\n  | {con} {nm} =>\n  {tx}' for (con, nm, _), tx in zip(arms, texts)) + '\n  end)')
+
     def stmt_if(self, s, rest, env, cont, ret):
         tr = self.tr
+        sx = self.seg_len_var(s.test, env)
+        if sx is not None: return self.split_on_class(sx, s, rest, env, cont, ret)
+        da = self.dict_alias_idiom(s, rest, env)
+        if da is not None:
+            D, K, X = da
+            d, kv = env[D], env[K]
+            kt = tmatch(d.ty[1], tr.rtype(kv))
+            if kt is None or kt == '?' or d.ty[2] == '?': self.fail(f'lookup of a {tr.rtype(kv)!r} in a {d.ty!r}', s)
+            x0 = self.fresh('v_' + X)
+            keyvar = f'{D}__key'
+            if keyvar in env or any(isinstance(y, ast.Name) and y.id == keyvar for y in ast.walk(self.fd)): self.fail(f'the name {keyvar} is taken', s)
+            eS = dict(env); eS[X] = Val(d.ty[2], x0); eS[keyvar] = kv
+            back = ast.Assign(targets=[ast.Subscript(value=ast.Name(id=D, ctx=ast.Load()), slice=ast.Name(id=keyvar, ctx=ast.Load()), ctx=ast.Store())],
+                              value=ast.Name(id=X, ctx=ast.Load()))
+            ast.copy_location(back, s.body[-1]); ast.fix_missing_locations(back)
+            a = self.block(s.body[1:] + [back] + rest, eS, cont, ret)
+            b = self.block(s.orelse + rest, env, cont, ret)
+            if a.ty == 'K' and a.const is None and b.ty == 'K' and b.const is None: return a
+            x, y, ty = self.unify(a, b, s)
+            return Val(ty, f'(match dict_get {self.keyeq(kt, s)} {d.tx} {tr.text(kv)} with\n  | Some {x0} =>\n  {x}\n  | None =>\n  {y}\n  end)')
+        lk = self.len_eq_test(s.test, env)
+        if lk is not None:
+            # `if len(X) == k:` on a dynamic list: a match on the shape of X; the true side sees X as the list of its k items
+            X, kk = lk
+            eT, pat = self.items_view(X, kk, env)
+            rb, ro = self.always_returns(s.body), self.always_returns(s.orelse)
+            a = self.block(s.body + ([] if rb else rest), eT, cont, ret)
+            b = self.block(s.orelse + ([] if ro else rest), env, cont, ret)
+            if a.ty == 'K' and a.const is None and b.ty == 'K' and b.const is None: return a
+            x, y, ty = self.unify(a, b, s)
+            return Val(ty, f'(match {env[X].tx} with\n  | {pat} =>\n  {x}\n  | _ =>\n  {y}\n  end)')
         lt = self.list_test(s.test, env) if self.effects else None
         if lt is not None:
             # a test of emptiness of a list is a match: the non-empty side sees it as h :: t (so l[0], l.pop(0) cannot fail there)
@@ -1863,7 +2646,7 @@ class FunTx:
         l, and the body (and p) see l as h :: t.  No return inside a loop.  When the body can raise (only in a function declared
         with 'exc'), the Fixpoint returns `option (outcome (<carried tuple>))`: `Some (Raises e)` at the raise, `Some (Returns ..)` at the exit."""
         tr = self.tr
-        if self.ctx_stack[-1] not in ('fun', 'loop'): self.fail('while loop inside a fold / inlined function', s)
+        if self.ctx_stack[-1] not in ('fun', 'loop', 'foldx'): self.fail('while loop inside a fold / inlined function', s)
         if s.orelse: self.fail('while-else', s)
         if self.has_return(s.body): self.fail('return inside a while loop', s)
         for x in ast.walk(s.test):
@@ -1980,13 +2763,77 @@ class FunTx:
         c = self.purely(lambda: self.truth(self.expr(test, e), s))
         return cond(c, lambda: body_k(e), lambda: exit_k(e))
 
+    def elementwise_idioms(self, s, rest, env, cont, ret):
+        """two loops that replace every element by a function of itself, as a `map`; returns None when s is neither
+
+             for i in range(0, len(X)): X[i] = E         X a dynamic list variable; E mentions i and X only as X[i]
+             for k in D: D[k] = E                         D a dict variable; E mentions D only as D[k]
+
+        (the iterations are independent: iteration i reads and writes element i only)"""
+        import copy
+        tr = self.tr
+        if s.orelse or len(s.body) != 1 or not isinstance(s.body[0], ast.Assign) or len(s.body[0].targets) != 1 or not isinstance(s.target, ast.Name): return None
+        a, i = s.body[0], s.target.id
+        tg = a.targets[0]
+        if not (isinstance(tg, ast.Subscript) and isinstance(tg.value, ast.Name) and isinstance(tg.slice, ast.Name) and tg.slice.id == i): return None
+        X = tg.value.id
+        if X not in env or X == i: return None
+        xv = env[X]
+        is_dict = isinstance(xv.ty, tuple) and xv.ty[0] == 'DICT'
+        if is_dict:
+            if not (isinstance(s.iter, ast.Name) and s.iter.id == X): return None
+        else:
+            it = s.iter
+            if 'range' in env or 'len' in env or 'range' in self.localfuns or 'len' in self.localfuns: return None
+            if not (isinstance(it, ast.Call) and isinstance(it.func, ast.Name) and it.func.id == 'range' and not it.keywords): return None
+            ar = it.args
+            if len(ar) == 2 and isinstance(ar[0], ast.Constant) and type(ar[0].value) is int and ar[0].value == 0: ar = ar[1:]
+            if not (len(ar) == 1 and isinstance(ar[0], ast.Call) and isinstance(ar[0].func, ast.Name) and ar[0].func.id == 'len' and not ar[0].keywords
+                    and len(ar[0].args) == 1 and isinstance(ar[0].args[0], ast.Name) and ar[0].args[0].id == X): return None
+            if not (isinstance(xv.ty, tuple) and xv.ty[0] == 'L' and xv.ty[1] != '?' and xv.tx is not None): return None
+        if any(i in l for l in self.live_stack) or self.reads_free(rest, i): self.fail(f'loop variable {i} used after the loop', s)
+        cur = f'{X}_at_{i}'
+        if cur in env or any(isinstance(y, ast.Name) and y.id == cur for y in ast.walk(self.fd)): return None
+        ok = [True]
+        class Rw(ast.NodeTransformer):
+            def visit_Subscript(self, node):
+                if isinstance(node.value, ast.Name) and node.value.id == X and isinstance(node.ctx, ast.Load) and isinstance(node.slice, ast.Name) and node.slice.id == i:
+                    return ast.copy_location(ast.Name(id=cur, ctx=ast.Load()), node)
+                return self.generic_visit(node)
+            def visit_Name(self, node):
+                if node.id == X or (node.id == i and not is_dict): ok[0] = False
+                return node
+        E = Rw().visit(copy.deepcopy(a.value)); ast.fix_missing_locations(E)
+        if not ok[0]: return None
+        e2 = dict(env)
+        if is_dict:
+            if xv.ty[1] == '?' or xv.ty[2] == '?' or xv.tx is None: self.fail(f'loop over a dict of unknown type {xv.ty!r}', s)
+            e2[cur] = Val(xv.ty[2], '(snd kv_)'); e2[i] = Val(xv.ty[1], '(fst kv_)')
+            v = self.purely(lambda: self.in_ctx('pure', lambda: self.expr(E, e2)))
+            if tmatch(tr.rtype(v), xv.ty[2]) is None: self.fail(f'the loop changes the type of the values of {X}: {xv.ty[2]!r} / {tr.rtype(v)!r}', s)
+            nv = Val(xv.ty, f'(map (fun kv_ => (fst kv_, {self.as_type(v, xv.ty[2], s)})) {xv.tx})')
+        else:
+            e2[cur] = Val(xv.ty[1], 'x_'); e2.pop(i, None)
+            v = self.purely(lambda: self.in_ctx('pure', lambda: self.expr(E, e2)))
+            if tmatch(tr.rtype(v), xv.ty[1]) is None: self.fail(f'the loop changes the type of the elements of {X}: {xv.ty[1]!r} / {tr.rtype(v)!r}', s)
+            nv = Val(xv.ty, f'(map (fun x_ => {self.as_type(v, xv.ty[1], s)}) {xv.tx})')
+        return self.bind(X, nv, env, lambda e: self.block(rest, e, cont, ret))
+
     def stmt_for(self, s, rest, env, cont, ret):
         tr = self.tr
+        r = self.elementwise_idioms(s, rest, env, cont, ret)
+        if r is not None: return r
         def own_exit(x):
             if isinstance(x, (ast.Break, ast.Continue)): return True
             if isinstance(x, (ast.For, ast.While)): return False
             return any(own_exit(c) for c in ast.iter_child_nodes(x))
-        if any(own_exit(b) for b in s.body): self.fail('break/continue in a for loop', s)
+        if any(own_exit(b) for b in s.body):
+            def own_continue(x):
+                if isinstance(x, ast.Continue): return True
+                if isinstance(x, (ast.For, ast.While)): return False
+                return any(own_continue(c) for c in ast.iter_child_nodes(x))
+            if any(own_continue(b) for b in s.body): self.fail('continue in a for loop', s)
+            return self.break_fold(s, rest, env, cont, ret)
         pl = self.pairs_loop(s, env)
         if pl is not None:
             X, cur, prev, s2 = pl
@@ -1998,8 +2845,82 @@ class FunTx:
             e1.pop(s.target.id, None)
             itv = Val(('L', ('T', (t, t))), f'(combine (tl {env[X].tx}) {env[X].tx})')
             return self.fold_loop(s2, rest, env, e1, [cur, prev], f"'(v_{cur}, v_{prev})", itv, cont, ret)
-        it = self.expr(s.iter, env)
+        cl = self.count_loop(s, env)
+        if cl is not None:
+            # for _ in range(0, len(X)): the body runs len(X) times (len is read once, on entry) and never looks at the index
+            if s.orelse: self.fail('for-else', s)
+            if self.has_return(s.body): self.fail('return inside a counting loop', s)
+            if any(s.target.id in l for l in self.live_stack) or self.reads_free(rest, s.target.id): self.fail(f'loop index {s.target.id} used after the loop', s)
+            itv = Val(('L', 'UNIT'), f'(repeat tt (length {env[cl].tx}))')
+            return self.pure_or_raising(s, rest, env, cont, ret,
+                                        lambda: self.fold_loop(s, rest, env, dict(env), [], '_', itv, cont, ret),
+                                        lambda: self.fold_loop_x(s, rest, env, dict(env), [], '_', itv, cont, ret))
+        it = self.deref(self.expr(s.iter, env), env, s)
         if s.orelse: self.fail('for-else', s)
+        if isinstance(it.ty, tuple) and it.ty[0] == 'DQ': it = Val(('L', it.ty[1]), it.tx)       # iteration over a deque: left to right
+        if isinstance(it.ty, tuple) and it.ty[0] == 'L' and not self.has_return(s.body):
+            if isinstance(s.target, ast.Name):
+                x = s.target.id
+                def as_x():
+                    e1 = dict(env); e1[x] = Val(it.ty[1], 'v_' + x)
+                    return self.fold_loop_x(s, rest, env, e1, [x], 'v_' + x, it, cont, ret)
+                return self.pure_or_raising(s, rest, env, cont, ret, lambda: self.stmt_for_dyn(s, it, rest, env, cont, ret), as_x)
+            et = it.ty[1]
+            tn = [e.id for e in s.target.elts if isinstance(e, ast.Name)] if isinstance(s.target, ast.Tuple) else []
+            if tn and len(tn) == len(s.target.elts) and len(set(tn)) == len(tn) and isinstance(et, tuple) and et[0] == 'T' and len(et[1]) == len(tn):
+                def as_x():
+                    e1 = dict(env)
+                    xpat = None
+                    for nm, ty in zip(tn, et[1]):
+                        e1[nm] = Val(ty, 'v_' + nm)
+                        xpat = 'v_' + nm if xpat is None else f'({xpat}, v_{nm})'
+                    return self.fold_loop_x(s, rest, env, e1, tn, f"'({xpat} : {coqty(et)})", it, cont, ret)
+                return self.pure_or_raising(s, rest, env, cont, ret, lambda: self.stmt_for_dyn(s, it, rest, env, cont, ret), as_x)
+        return self.stmt_for_dyn(s, it, rest, env, cont, ret)
+
+    def pure_or_raising(self, s, rest, env, cont, ret, pure, raising):
+        """a loop over a dynamic list: as a plain fold when its body cannot raise; else, at statement level of a function declared to
+        raise, with fold_outcome"""
+        tr = self.tr
+        if not (self.effects and self.ctx_stack[-1] == 'fun' and self.pure_depth == 0): return pure()
+        saved = (self.counter, tr.counter, len(self.pending))
+        try:
+            return pure()
+        except Untranslatable as first:
+            self.counter, tr.counter = saved[0], saved[1]; del self.pending[saved[2]:]
+            try:
+                return raising()
+            except EffectInJoin:
+                raise
+            except Untranslatable as second:
+                raise Untranslatable(f'{second} [as a plain fold: {first}]')
+
+    def count_loop(self, s, env):
+        """`for i in range(0, len(X))` / `range(len(X))`, X a dynamic list or deque variable, i never read -> X"""
+        it = s.iter
+        if not (isinstance(it, ast.Call) and isinstance(it.func, ast.Name) and it.func.id == 'range' and not it.keywords and isinstance(s.target, ast.Name)): return None
+        if 'range' in env or 'len' in env or 'range' in self.localfuns or 'len' in self.localfuns: return None
+        a = it.args
+        if len(a) == 2 and isinstance(a[0], ast.Constant) and type(a[0].value) is int and a[0].value == 0: a = a[1:]
+        if not (len(a) == 1 and isinstance(a[0], ast.Call) and isinstance(a[0].func, ast.Name) and a[0].func.id == 'len' and not a[0].keywords
+                and len(a[0].args) == 1 and isinstance(a[0].args[0], ast.Name)): return None
+        X = a[0].args[0].id
+        if X not in env or not (isinstance(env[X].ty, tuple) and env[X].ty[0] in ('L', 'DQ') and env[X].ty[1] != '?' and env[X].tx is not None): return None
+        if any(isinstance(y, ast.Name) and y.id == s.target.id for b in s.body for y in ast.walk(b)): return None
+        return X
+
+    def deref(self, v, env, n=None):
+        """the deque a reference value stands for: env's current value of the cell (static), or a choice between the two cells"""
+        if v.ty == 'K' and isinstance(v.const, tuple) and v.const[0] == 'cellref': return env[v.const[1]]
+        if isinstance(v.ty, tuple) and v.ty[0] == 'RF':
+            a, b = [env[c] for c in v.ty[1]]
+            t = tmatch(a.ty, b.ty)
+            if t is None: self.fail(f'the two deques have different types {a.ty!r} / {b.ty!r}', n)
+            return Val(t, f'(if {v.tx} then {self.tr.text(a)} else {self.tr.text(b)})')
+        return v
+
+    def stmt_for_dyn(self, s, it, rest, env, cont, ret):
+        tr = self.tr
         if it.ty == 'FL':
             itname = s.iter.id if isinstance(s.iter, ast.Name) else None
             items = list(it.items)
@@ -2043,12 +2964,18 @@ class FunTx:
                 x_, y_, ty = self.unify(Val(rty, nm), r, s)
                 return Val(ty, f'(match find_first (fun v_{x} => {bt}) {it.tx} with Some {nm} => {x_} | None => {y_} end)')
             names = [v for v in self.assigned(s.body, env) if v != x]
+            for v in names:
+                # a variable first assigned inside the loop is local to one iteration, provided nothing reads it afterwards
+                if v not in env and (any(v in l for l in self.live_stack) or self.reads_free(rest, v)):
+                    self.fail(f'variable {v} first assigned inside a loop and used after it', s)
+            names = [v for v in names if v in env]
             if not names: return self.block(rest, env, cont, ret)
             accs = [self.need(env, v, s) for v in names]
             tys = [tr.rtype(a) for a in accs]
             inner = {nm: self.fresh('v_' + nm) for nm in names}
             for nm, t in zip(names, tys): e1[nm] = Val(t, inner[nm])
             body = self.in_ctx('pure', lambda: self.with_live(names, lambda: self.block(s.body, e1, lambda e: Val('TUP', items=[self.need(e, v, s) for v in names]), lambda v, e: self.fail('return in fold', s))))
+            tys = self.refine_acc_types(tys, body)
             pat = None
             for nm in names: pat = inner[nm] if pat is None else f'({pat}, {inner[nm]})'
             init = tr.text(Val('TUP', items=accs)) if len(accs) > 1 else tr.text(accs[0])
@@ -2072,9 +2999,9 @@ class FunTx:
         names = [v for v in self.assigned(s.body, env) if v not in targets]
         after = self.live_after(rest)
         for v in names:
-            if v not in env and v in after: self.fail(f'variable {v} first assigned inside a loop and used after it', s)
+            if v not in env and v in after and (any(v in l for l in self.live_stack) or self.reads_free(rest, v)): self.fail(f'variable {v} first assigned inside a loop and used after it', s)
         for v in targets:
-            if v in after: self.fail(f'loop variable {v} used after the loop', s)
+            if v in after and (any(v in l for l in self.live_stack) or self.reads_free(rest, v)): self.fail(f'loop variable {v} used after the loop', s)
         names = [v for v in names if v in env]
         if not names: return self.block(rest, env, cont, ret)
         accs = [self.need(env, v, s) for v in names]
@@ -2086,6 +3013,7 @@ class FunTx:
             for i, (b, t) in enumerate(zip(body.items, tys)):
                 if tmatch(tr.rtype(b), t) is None: self.fail(f'loop changes the type of an accumulator: {tr.rtype(b)!r} / {t!r}', s)
                 tys[i] = tmatch(tr.rtype(b), t)
+        tys = self.refine_acc_types(tys, body)
         pat = None
         for nm in names: pat = inner[nm] if pat is None else f'({pat}, {inner[nm]})'
         init = tr.text(Val('TUP', items=accs)) if len(accs) > 1 else tr.text(accs[0])
@@ -2100,6 +3028,230 @@ class FunTx:
         lp = "'" + pat if len(names) > 1 else pat
         olp = "'" + opat if len(names) > 1 else opat
         return self.retext(r, f"let {olp} := fold_left (fun {lp} {xpat} => {bt}) {it.tx} {init} in\n  {tr.text(r)}")
+
+    def refine_acc_types(self, tys, body):
+        """element types left open by an empty literal list (`acc = []` before the loop) as the loop body determines them"""
+        if not self.effects: return tys        # (only where results must be fully typed: the functions declared in EFFECTS)
+        bt = None
+        if body.ty == 'TUP' and len(body.items) == len(tys): bt = [self.tr.rtype(b) for b in body.items]
+        elif isinstance(body.ty, tuple) and body.ty[0] == 'T' and len(body.ty[1]) == len(tys): bt = list(body.ty[1])
+        if bt is None: return tys
+        return [tmatch(t, b) if tmatch(t, b) is not None else t for t, b in zip(tys, bt)]
+
+    def loop_names(self, s, rest, env, targets):
+        names = [v for v in self.assigned(s.body, env) if v not in targets]
+        for v in names:
+            if v not in env and (any(v in l for l in self.live_stack) or self.reads_free(rest, v)): self.fail(f'variable {v} first assigned inside a loop and used after it', s)
+        for v in targets:
+            if any(v in l for l in self.live_stack) or self.reads_free(rest, v): self.fail(f'loop variable {v} used after the loop', s)
+        return [v for v in names if v in env]
+
+    def reads_free(self, stmts, v):
+        """may the statements read the variable v as it is on entry?  A read after a definite assignment at the same or an outer
+        level of the statement list (`v = e` with e not reading v; both branches of an if), or inside the body of a `for v in ..`,
+        is not one.  Conservative: every other Load of the name counts (nested functions and lambdas included)."""
+        def loads(x): return any(isinstance(y, ast.Name) and y.id == v and isinstance(y.ctx, ast.Load) for y in ast.walk(x))
+        def mentions(x): return any(isinstance(y, ast.Name) and y.id == v for y in ast.walk(x))
+        def binds(t): return any(isinstance(y, ast.Name) and y.id == v for y in ast.walk(t))
+        def block(sts):
+            # 'read': may read the incoming v; 'assigned': v is definitely rebound, without having been read; None: neither
+            for st in sts:
+                r = stmt(st)
+                if r is not None: return r
+            return None
+        def stmt(st):
+            if isinstance(st, ast.Assign):
+                if loads(st.value) or any(loads(t) for t in st.targets if not isinstance(t, (ast.Name, ast.Tuple))): return 'read'
+                if any(isinstance(t, ast.Name) and t.id == v for t in st.targets): return 'assigned'
+                if any(isinstance(t, ast.Tuple) and all(isinstance(e, ast.Name) for e in t.elts) and binds(t) for t in st.targets): return 'assigned'
+                return 'read' if any(mentions(t) for t in st.targets) else None
+            if isinstance(st, ast.For):
+                if loads(st.iter): return 'read'
+                if binds(st.target):
+                    return 'read' if block(st.orelse) == 'read' else None
+                if block(st.body) == 'read' or block(st.orelse) == 'read': return 'read'
+                return None
+            if isinstance(st, ast.While):
+                if loads(st.test) or block(st.body) == 'read' or block(st.orelse) == 'read': return 'read'
+                return None
+            if isinstance(st, ast.If):
+                if loads(st.test): return 'read'
+                a, b = block(st.body), block(st.orelse)
+                if a == 'read' or b == 'read': return 'read'
+                return 'assigned' if a == 'assigned' and b == 'assigned' else None
+            return 'read' if mentions(st) else None
+        return block(stmts) == 'read'
+
+    def fold_loop_x(self, s, rest, env, e1, targets, xpat, it, cont, ret):
+        """`for <targets> in <dynamic list>` whose body may raise (a call of a raising function, a `raise`), at statement level of a
+        function declared with 'exc':
+
+            match fold_outcome (fun <accumulators> <item> => <body, ending in Returns (<accumulators>)>) <list> <initial values> with
+            | Raises e_ => Raises e_ | Returns <accumulators> => <what follows the loop> end
+
+        fold_outcome stops at the first item whose step raises.  No return / break / continue inside.  In a function declared
+        with 'fuel' the body may contain `while` loops and calls of fuelled functions (they all run on the function's budget):
+        fold_option (None = out of fuel, Some <accumulators>), and with both effects fold_option_outcome."""
+        tr = self.tr
+        if self.ctx_stack[-1] != 'fun' or self.pure_depth or not self.effects:
+            self.fail('a loop whose body may raise / consume fuel, elsewhere than at statement level of a function declared with effects', s)
+        fx_ = set(self.effects)
+        comb = {('exc',): 'fold_outcome', ('fuel',): 'fold_option', ('exc', 'fuel'): 'fold_option_outcome'}[tuple(sorted(fx_))]
+        def ok(tx):
+            if 'exc' in fx_: tx = f'(Returns {tx})'
+            if 'fuel' in fx_: tx = f'(Some {tx})'
+            return tx
+        names = self.loop_names(s, rest, env, targets)
+        if not names: self.fail('a loop whose body may raise and that carries no variable', s)
+        accs = [self.need(env, v, s) for v in names]
+        tys = [tr.rtype(a) for a in accs]
+        def unresolved(t):
+            if t == '?': return True
+            if isinstance(t, tuple) and t[0] == 'T': return any(unresolved(x) for x in t[1])
+            if isinstance(t, tuple) and t[0] in ('L', 'DQ', 'O', 'X', 'F'): return unresolved(t[1])
+            return False
+
+        def attempt(tys, final):
+            inner = {nm: self.fresh('v_' + nm) for nm in names}
+            e = dict(e1)
+            for nm, t in zip(names, tys): e[nm] = Val(t, inner[nm])
+            rty = mtype(self.effects, ('T', tuple(tys)) if len(tys) > 1 else tys[0])
+            seen = []
+            def done(e2):
+                vals = [self.need(e2, v, s) for v in names]
+                seen.append(vals)
+                texts = [self.as_type(x, t, s) if final else '_' for x, t in zip(vals, tys)]
+                return Val(rty, ok('(' + ', '.join(texts) + ')' if len(texts) > 1 else texts[0]))
+            self.loop_stack.append(None)
+            try:
+                body = self.in_ctx('foldx', lambda: self.with_live(names, lambda: self.block(s.body, e, done, lambda v, e2: self.fail('return in a fold', s))))
+            finally:
+                self.loop_stack.pop()
+            return body, inner, rty, seen
+
+        for _ in range(4):
+            saved = (self.counter, tr.counter, len(self.pending))
+            self.trial += 1
+            try: _, inner, _, seen = attempt(tys, False)
+            finally: self.trial -= 1
+            self.counter, tr.counter = saved[0], saved[1]; del self.pending[saved[2]:]
+            new = list(tys)
+            for row in seen:
+                for i, x in enumerate(row):
+                    if x.tx is not None and x.tx == inner[names[i]]: continue
+                    m = tmatch(new[i], tr.rtype(x))
+                    if m is None: self.fail(f'loop changes the type of {names[i]}: {new[i]!r} / {tr.rtype(x)!r}', s)
+                    new[i] = m
+            if new == tys: break
+            tys = new
+        else:
+            self.fail('types of the accumulators do not settle', s)
+        if any(unresolved(t) for t in tys): self.fail(f'cannot infer the types of the accumulators {names}: {tys!r}', s)
+        body, inner, rty, _ = attempt(tys, True)
+        if tmatch(tr.rtype(body), rty) is None: self.fail(f'loop body of type {tr.rtype(body)!r} where {rty!r} is expected', s)
+        pat = None
+        for nm in names: pat = inner[nm] if pat is None else f'({pat}, {inner[nm]})'
+        init = '(' + ', '.join(self.as_type(a, t, s) for a, t in zip(accs, tys)) + ')' if len(accs) > 1 else self.as_type(accs[0], tys[0], s)
+        e2 = dict(env)
+        opat = None
+        for nm, t in zip(names, tys):
+            fn = self.fresh('v_' + nm)
+            e2[nm] = Val(t, fn)
+            opat = fn if opat is None else f'({opat}, {fn})'
+        r = self.block(rest, e2, cont, ret)
+        if r.ty == 'K' and r.const is None: self.fail('a loop that may raise on a path that returns None', s)
+        if is_mtype(tr.rtype(r)) is None:
+            raise EffectInJoin(f'{self.path}:{s.lineno} ({self.fd.name}): the code after a loop that may raise is not a function result')
+        lp = f"'({pat} : {coqty(('T', tuple(tys)))})" if len(names) > 1 else f'({pat} : {coqty(tys[0])})'
+        arms = {('exc',): f'  | Raises e_ => {self.raise_text("e_")}\n  | Returns {opat} =>',
+                ('fuel',): f'  | None => None\n  | Some {opat} =>',
+                ('exc', 'fuel'): f'  | None => None\n  | Some (Raises e_) => {self.raise_text("e_")}\n  | Some (Returns {opat}) =>'}[tuple(sorted(fx_))]
+        return self.retext(r, f'match {comb} (fun {lp} {xpat} =>\n  {tr.text(body)}) {it.tx} {init} with\n{arms}\n  {tr.text(r)}\n  end')
+
+    def break_fold(self, s, rest, env, cont, ret):
+        """`for <targets> in <dynamic list>` with `break` (no continue / return / else), its body pure:
+
+            let '(_, <accumulators>) := fold_left (fun '(brk, <accumulators>) <item> => if brk then (brk, <accumulators>) else <body>)
+                                                  <list> (false, <initial values>) in ..
+
+        the body ends in (false, ..), a `break` is (true, ..): once the flag is set the remaining items leave the state unchanged.
+        The accumulators' types are inferred as for a while loop; a variable initialised with an int literal and assigned run-time
+        ints in the body (an index from enumerate) is a 'Z'."""
+        tr = self.tr
+        if s.orelse: self.fail('for-else', s)
+        if self.has_return(s.body): self.fail('return inside a for loop with break', s)
+        it = self.expr(s.iter, env)
+        if not (isinstance(it.ty, tuple) and it.ty[0] == 'L' and it.ty[1] != '?' and it.tx is not None): self.fail(f'for-with-break over {it.ty!r}', s)
+        et = it.ty[1]
+        e1 = dict(env)
+        if isinstance(s.target, ast.Name):
+            targets = [s.target.id]; e1[s.target.id] = Val(et, 'v_' + s.target.id); xpat = 'v_' + s.target.id
+        else:
+            targets = [e.id for e in s.target.elts if isinstance(e, ast.Name)] if isinstance(s.target, ast.Tuple) else []
+            if not targets or len(targets) != len(s.target.elts) or len(set(targets)) != len(targets) \
+                    or not (isinstance(et, tuple) and et[0] == 'T' and len(et[1]) == len(targets)): self.fail('dynamic for target', s)
+            xpat = None
+            for nm, ty in zip(targets, et[1]):
+                e1[nm] = Val(ty, 'v_' + nm)
+                xpat = 'v_' + nm if xpat is None else f'({xpat}, v_{nm})'
+            xpat = "'" + xpat
+        names = self.loop_names(s, rest, env, targets)
+        if not names: return self.block(rest, env, cont, ret)
+        inits = [self.need(env, v, s) for v in names]
+        tys = [tr.rtype(a) for a in inits]
+
+        def attempt(tys, final):
+            inner = {nm: self.fresh('v_' + nm) for nm in names}
+            flag = self.fresh('brk')
+            e = dict(e1)
+            for nm, t in zip(names, tys): e[nm] = Val(t, inner[nm])
+            seen = []
+            def pack(b):
+                def k(e2):
+                    vals = [self.need(e2, v, s) for v in names]
+                    seen.append(vals)
+                    texts = [self.as_type(x, t, s) if final else (tr.text(x) if x.tx is not None or x.ty in ('I', 'K', 'FL', 'TUP') else '_') for x, t in zip(vals, tys)]
+                    return Val(('T', ('B',) + tuple(tys)), '(' + ', '.join([b] + texts) + ')')
+                return k
+            self.loop_stack.append((pack('true'), None))
+            try:
+                body = self.in_ctx('pure', lambda: self.with_live(names, lambda: self.block(s.body, e, pack('false'), lambda v, e2: self.fail('return in a fold', s))))
+            finally:
+                self.loop_stack.pop()
+            return body, inner, flag, seen
+
+        for _ in range(4):
+            saved = (self.counter, tr.counter)
+            self.trial += 1
+            try: _, inner, _, seen = attempt(tys, False)
+            finally: self.trial -= 1
+            self.counter, tr.counter = saved
+            new = list(tys)
+            for row in seen:
+                for i, x in enumerate(row):
+                    if x.tx is not None and x.tx == inner[names[i]]: continue      # the accumulator itself, unchanged
+                    if x.ty == 'I' and new[i] == 'Z': continue
+                    if x.ty == 'Z' and new[i] == 'S' and inits[i].ty == 'I': new[i] = 'Z'; continue
+                    m = tmatch(new[i], tr.rtype(x))
+                    if m is None: self.fail(f'for loop changes the type of {names[i]}: {new[i]!r} / {tr.rtype(x)!r}', s)
+                    new[i] = m
+            if new == tys: break
+            tys = new
+        else:
+            self.fail('types of the accumulators do not settle', s)
+        body, inner, flag, _ = attempt(tys, True)
+        pat = "'((" + ', '.join([flag] + [inner[nm] for nm in names]) + ') : ' + coqty(('T', ('B',) + tuple(tys))) + ')'
+        if xpat.startswith("'"): xpat = f"'({xpat[1:]} : {coqty(et)})"
+        else: xpat = f'({xpat} : {coqty(et)})'
+        keep = '(' + ', '.join([flag] + [inner[nm] for nm in names]) + ')'
+        init = '(' + ', '.join(['false'] + [self.as_type(a, t, s) for a, t in zip(inits, tys)]) + ')'
+        e2 = dict(env)
+        outs = []
+        for nm, t in zip(names, tys):
+            fn = self.fresh('v_' + nm)
+            e2[nm] = Val(t, fn); outs.append(fn)
+        r = self.block(rest, e2, cont, ret)
+        return self.retext(r, f"let '({', '.join(['_'] + outs)}) := fold_left (fun {pat} {xpat} => if {flag} then {keep} else\n  {tr.text(body)}) {it.tx} {init} in\n  {tr.text(r)}")
 
     def optionise(self, body, s):
         """text of an option-valued body whose leaves are SOME(v) or None; returns (text, element type)"""
@@ -2202,7 +3354,10 @@ SAMPLE_TARGETS = [(c, m) for m in ('sample', 'regularSampleTValue', 'regularSamp
 PATH_TARGETS = [('BezierPath', 'length'), ('BezierPath', 'pointAtTime'), ('BezierPath', 'lengthAtTime')] + \
                [(c, 'flatten') for c in ('Line', 'QuadraticBezier', 'CubicBezier')] + \
                [('BezierPath', m) for m in ('sample', 'regularSampleTValue', 'regularSample')]
-TARGETS += SHAPE_TARGETS + BOUNDS_TARGETS + SEGMENT_TARGETS + FIT_TARGETS + SAMPLE_TARGETS + PATH_TARGETS
+NODELIST_TARGETS = [('Node', 'x'), ('Node', 'y')] + [('SegmentRepresentation', m) for m in ('toNodelist', 'appendSegment', 'fromNodelist')]
+SPLIT_TARGETS = [('BezierPath', 'splitAtPoints'), ('BezierPath', 'addExtremes')]
+SWEEP_TARGETS = [('mod:utils/linesweep.py', 'dequefilter'), ('mod:utils/linesweep.py', 'bbox_intersections')]
+TARGETS += SHAPE_TARGETS + BOUNDS_TARGETS + SEGMENT_TARGETS + FIT_TARGETS + SAMPLE_TARGETS + PATH_TARGETS + NODELIST_TARGETS + SWEEP_TARGETS + SPLIT_TARGETS
 
 # fixed text at the top of a generated file: the types and list helpers the effectful definitions are written with
 PRELUDE = {'Sample': '''(* A function with a data-dependent `while` loop takes [fuel : nat] -- the number of iterations EVERY loop invocation may
@@ -2246,6 +3401,92 @@ Definition py_index {T A : Type} (O : Ops T) (l : list A) (k : T) : option A :=
 Definition py_slice_to {T A : Type} (O : Ops T) (l : list A) (k : T) : list A :=
   if ltb O k (ofZ O 0) then rev (drop_T O (rev l) (neg O k)) else take_T O l k.
 
+''',
+           'Nodelist': '''(* path/representations.  A node type is one of the three strings the library itself produces ("line", "curve", "offcurve");
+   Node and SegmentRepresentation are records of the attributes their __init__ sets ([sr_path] is `self.path.closed`, the only
+   thing ever read of the path).  Python ints computed at run time (indices) are Z, exact for every carrier. *)
+Inductive nodetype : Set := Nt_line | Nt_curve | Nt_offcurve.
+Definition nodetype_eqb (a b : nodetype) : bool :=
+  match a, b with Nt_line, Nt_line | Nt_curve, Nt_curve | Nt_offcurve, Nt_offcurve => true | _, _ => false end.
+Record gnode (T : Type) := GNode { n_point : pt T; n_type : nodetype }.
+Arguments GNode {T}. Arguments n_point {T}. Arguments n_type {T}.
+Record segrep (T : Type) := MkSegRep { sr_path : bool; sr_segments : list (segment T) }.
+Arguments MkSegRep {T}. Arguments sr_path {T}. Arguments sr_segments {T}.
+(* for x in l: <body that may raise>: the first step that raises ends the loop *)
+Fixpoint fold_outcome {A B : Type} (f : A -> B -> outcome A) (l : list B) (a : A) : outcome A :=
+  match l with
+  | [] => Returns a
+  | b :: r => match f a b with Raises e => Raises e | Returns a' => fold_outcome f r a' end
+  end.
+(* enumerate(l) *)
+Fixpoint enumerate_from {A : Type} (i : Z) (l : list A) : list (Z * A) :=
+  match l with [] => [] | a :: r => (i, a) :: enumerate_from (i + 1)%Z r end.
+Definition enumerate_Z {A : Type} (l : list A) : list (Z * A) := enumerate_from 0%Z l.
+(* l[k] (None = IndexError), l[k:] and l[:k] for a Python int k: a negative k counts from the end, slices clip *)
+Definition py_index_Z {A : Type} (l : list A) (k : Z) : option A :=
+  if (k <? 0)%Z then nth_error (rev l) (Z.to_nat (- k - 1)) else nth_error l (Z.to_nat k).
+Definition py_slice_from_Z {A : Type} (l : list A) (k : Z) : list A :=
+  if (k <? 0)%Z then skipn (length l - Z.to_nat (- k)) l else skipn (Z.to_nat k) l.
+Definition py_slice_to_Z {A : Type} (l : list A) (k : Z) : list A :=
+  if (k <? 0)%Z then firstn (length l - Z.to_nat (- k)) l else firstn (Z.to_nat k) l.
+
+''',
+           'Sweep': '''(* utils/linesweep.py.  A shape is an object of which the sweep uses its identity and its bounds(): a tag and a box.  `o != o2`
+   between two shapes is the comparison of the tags (distinct objects compare unequal, an object equals itself).  A deque is
+   a list (append on the right, popleft on the left).  In an instruction tuple the verb and the active list are references
+   to one of the two local functions / one of the two local deques, in order of definition: bools, true = the first
+   (add_to / active_a). *)
+Definition shape (T : Type) : Type := (nat * bbox T)%type.
+Definition shape_eqb {T : Type} (a b : shape T) : bool := Nat.eqb (fst a) (fst b).
+(* sorted(l, key=f): stable, compares the keys with < only (insertion from the left, like [sort_] of Base/Ops.v) *)
+Fixpoint insert_by {T A : Type} (O : Ops T) (key : A -> T) (x : A) (l : list A) : list A :=
+  match l with
+  | [] => [x]
+  | y :: r => if ltb O (key x) (key y) then x :: y :: r else y :: insert_by O key x r
+  end.
+Definition sorted_by {T A : Type} (O : Ops T) (key : A -> T) (l : list A) : list A :=
+  fold_left (fun acc x => insert_by O key x acc) l [].
+
+''',
+           'Split': '''(* path/__init__.py: splitAtPoints / addExtremes.  A dict is the association list of its items in first-insertion order; a key
+   is looked up with a key equality applied to (stored key, looked-up key).  For segments: same class and numerically equal
+   coordinates (CPython: equal hashes, then identity or ==; see tools/py2v.py 'DICT' for what this leaves out). *)
+Definition pt_keyeq {T : Type} (O : Ops T) (a b : pt T) : bool := eqb O (px a) (px b) && eqb O (py a) (py b).
+Definition segment_keyeq {T : Type} (O : Ops T) (a b : segment T) : bool :=
+  match a, b with
+  | SLine x, SLine y => pt_keyeq O (l0 x) (l0 y) && pt_keyeq O (l1 x) (l1 y)
+  | SQuad x, SQuad y => pt_keyeq O (q0 x) (q0 y) && pt_keyeq O (q1 x) (q1 y) && pt_keyeq O (q2 x) (q2 y)
+  | SCubic x, SCubic y => pt_keyeq O (c0 x) (c0 y) && pt_keyeq O (c1 x) (c1 y) && pt_keyeq O (c2 x) (c2 y) && pt_keyeq O (c3 x) (c3 y)
+  | _, _ => false
+  end.
+Section Dict.
+Context {K V : Type} (keq : K -> K -> bool).
+(* k in d *)
+Fixpoint dict_mem (d : list (K * V)) (k : K) : bool :=
+  match d with [] => false | (k', _) :: r => if keq k' k then true else dict_mem r k end.
+(* d[k]; None = KeyError *)
+Fixpoint dict_get (d : list (K * V)) (k : K) : option V :=
+  match d with [] => None | (k', v) :: r => if keq k' k then Some v else dict_get r k end.
+(* d[k] = v: the stored key stays *)
+Fixpoint dict_set (d : list (K * V)) (k : K) (v : V) : list (K * V) :=
+  match d with
+  | [] => [(k, v)]
+  | (k', v') :: r => if keq k' k then (k', v) :: r else (k', v') :: dict_set r k v
+  end.
+End Dict.
+(* if k not in d: d[k] = [];  d[k].append(x) *)
+Fixpoint dict_append {K A : Type} (keq : K -> K -> bool) (d : list (K * list A)) (k : K) (x : A) : list (K * list A) :=
+  match d with
+  | [] => [(k, [x])]
+  | (k', l) :: r => if keq k' k then (k', l ++ [x]) :: r else (k', l) :: dict_append keq r k x
+  end.
+(* for x in l: <body with while loops>: None = some step ran out of fuel *)
+Fixpoint fold_option {A B : Type} (f : A -> B -> option A) (l : list B) (a : A) : option A :=
+  match l with
+  | [] => Some a
+  | b :: r => match f a b with None => None | Some a' => fold_option f r a' end
+  end.
+
 '''}
 
 
@@ -2276,7 +3517,7 @@ def generate(outdir, targets=None):
             tr.inprogress.clear()
     texts = {}
     for i, f in enumerate(FILE_ORDER):
-        texts[f] = header(f, [d for d in FILE_ORDER[:i] if d not in LEAF_FILES]) + PRELUDE.get(f, '') + '\n'.join(tr.out[f])
+        texts[f] = header(f, [d for d in FILE_ORDER[:i] if d not in LEAF_FILES] + EXTRA_DEPS.get(f, [])) + PRELUDE.get(f, '') + '\n'.join(tr.out[f])
     os.makedirs(outdir, exist_ok=True)
     changed = []
     for f, t in texts.items():
